@@ -1,6 +1,6 @@
 //@ props: C01 C02 C03 C04 C05 C10
 //@ expect: pass
-//@ what: all 237 method names over the classes letter/digit/underscore up to length 5, under exec/query/sudo in contracts, interfaces and contracts using them
+//@ what: all 179 method names over the classes letter/digit/underscore up to length 5, under exec/query/sudo in contracts, interfaces and contracts using them
 #![allow(dead_code, unused_variables, non_snake_case, clippy::new_without_default)]
 use sylvia::ctx::{ExecCtx, InstantiateCtx, QueryCtx, SudoCtx};
 use sylvia::cw_std::{Response, StdError, StdResult};
@@ -20,29 +20,29 @@ pub mod tc0 {
         #[sv::msg(instantiate)]
         fn instantiate(&self, _ctx: InstantiateCtx) -> StdResult<Response> { Ok(Response::new()) }
         #[sv::msg(exec)]
-        fn _2(&self, _ctx: ExecCtx, first: u32, second: u32) -> StdResult<Response> { Ok(Response::new()) }
+        fn ____a(&self, _ctx: ExecCtx, first: u32, second: u32) -> StdResult<Response> { Ok(Response::new()) }
         #[sv::msg(exec)]
-        fn _22(&self, _ctx: ExecCtx, first: u32, second: u32) -> StdResult<Response> { Ok(Response::new()) }
+        fn ___a2(&self, _ctx: ExecCtx, first: u32, second: u32) -> StdResult<Response> { Ok(Response::new()) }
         #[sv::msg(exec)]
-        fn _222(&self, _ctx: ExecCtx, first: u32, second: u32) -> StdResult<Response> { Ok(Response::new()) }
+        fn ___ab(&self, _ctx: ExecCtx, first: u32, second: u32) -> StdResult<Response> { Ok(Response::new()) }
         #[sv::msg(exec)]
-        fn _2222(&self, _ctx: ExecCtx, first: u32, second: u32) -> StdResult<Response> { Ok(Response::new()) }
+        fn __a22(&self, _ctx: ExecCtx, first: u32, second: u32) -> StdResult<Response> { Ok(Response::new()) }
         #[sv::msg(query)]
-        fn _222a(&self, _ctx: QueryCtx, first: u32, second: u32) -> StdResult<Resp> { Ok(Resp {}) }
+        fn __a2b(&self, _ctx: QueryCtx, first: u32, second: u32) -> StdResult<Resp> { Ok(Resp {}) }
         #[sv::msg(query)]
-        fn _22_a(&self, _ctx: QueryCtx, first: u32, second: u32) -> StdResult<Resp> { Ok(Resp {}) }
+        fn __ab2(&self, _ctx: QueryCtx, first: u32, second: u32) -> StdResult<Resp> { Ok(Resp {}) }
         #[sv::msg(query)]
-        fn _22a2(&self, _ctx: QueryCtx, first: u32, second: u32) -> StdResult<Resp> { Ok(Resp {}) }
+        fn __abc(&self, _ctx: QueryCtx, first: u32, second: u32) -> StdResult<Resp> { Ok(Resp {}) }
         #[sv::msg(query)]
-        fn _22ab(&self, _ctx: QueryCtx, first: u32, second: u32) -> StdResult<Resp> { Ok(Resp {}) }
+        fn _a222(&self, _ctx: QueryCtx, first: u32, second: u32) -> StdResult<Resp> { Ok(Resp {}) }
         #[sv::msg(sudo)]
-        fn _2__a(&self, _ctx: SudoCtx, first: u32, second: u32) -> StdResult<Response> { Ok(Response::new()) }
+        fn _a22b(&self, _ctx: SudoCtx, first: u32, second: u32) -> StdResult<Response> { Ok(Response::new()) }
         #[sv::msg(sudo)]
-        fn _2_a2(&self, _ctx: SudoCtx, first: u32, second: u32) -> StdResult<Response> { Ok(Response::new()) }
+        fn _a2b2(&self, _ctx: SudoCtx, first: u32, second: u32) -> StdResult<Response> { Ok(Response::new()) }
         #[sv::msg(sudo)]
-        fn _2_ab(&self, _ctx: SudoCtx, first: u32, second: u32) -> StdResult<Response> { Ok(Response::new()) }
+        fn _a2bc(&self, _ctx: SudoCtx, first: u32, second: u32) -> StdResult<Response> { Ok(Response::new()) }
         #[sv::msg(sudo)]
-        fn _2a22(&self, _ctx: SudoCtx, first: u32, second: u32) -> StdResult<Response> { Ok(Response::new()) }
+        fn _ab22(&self, _ctx: SudoCtx, first: u32, second: u32) -> StdResult<Response> { Ok(Response::new()) }
     }
 }
 
@@ -53,29 +53,29 @@ pub mod ti0 {
     pub trait Shapes0 {
         type Error: From<StdError>;
         #[sv::msg(exec)]
-        fn _2__a(&self, ctx: ExecCtx, first: u32, second: u32) -> Result<Response, Self::Error>;
+        fn _a22b(&self, ctx: ExecCtx, first: u32, second: u32) -> Result<Response, Self::Error>;
         #[sv::msg(exec)]
-        fn _2_a2(&self, ctx: ExecCtx, first: u32, second: u32) -> Result<Response, Self::Error>;
+        fn _a2b2(&self, ctx: ExecCtx, first: u32, second: u32) -> Result<Response, Self::Error>;
         #[sv::msg(exec)]
-        fn _2_ab(&self, ctx: ExecCtx, first: u32, second: u32) -> Result<Response, Self::Error>;
+        fn _a2bc(&self, ctx: ExecCtx, first: u32, second: u32) -> Result<Response, Self::Error>;
         #[sv::msg(exec)]
-        fn _2a22(&self, ctx: ExecCtx, first: u32, second: u32) -> Result<Response, Self::Error>;
+        fn _ab22(&self, ctx: ExecCtx, first: u32, second: u32) -> Result<Response, Self::Error>;
         #[sv::msg(query)]
-        fn _2(&self, ctx: QueryCtx, first: u32, second: u32) -> Result<Resp, Self::Error>;
+        fn ____a(&self, ctx: QueryCtx, first: u32, second: u32) -> Result<Resp, Self::Error>;
         #[sv::msg(query)]
-        fn _22(&self, ctx: QueryCtx, first: u32, second: u32) -> Result<Resp, Self::Error>;
+        fn ___a2(&self, ctx: QueryCtx, first: u32, second: u32) -> Result<Resp, Self::Error>;
         #[sv::msg(query)]
-        fn _222(&self, ctx: QueryCtx, first: u32, second: u32) -> Result<Resp, Self::Error>;
+        fn ___ab(&self, ctx: QueryCtx, first: u32, second: u32) -> Result<Resp, Self::Error>;
         #[sv::msg(query)]
-        fn _2222(&self, ctx: QueryCtx, first: u32, second: u32) -> Result<Resp, Self::Error>;
+        fn __a22(&self, ctx: QueryCtx, first: u32, second: u32) -> Result<Resp, Self::Error>;
         #[sv::msg(sudo)]
-        fn _222a(&self, ctx: SudoCtx, first: u32, second: u32) -> Result<Response, Self::Error>;
+        fn __a2b(&self, ctx: SudoCtx, first: u32, second: u32) -> Result<Response, Self::Error>;
         #[sv::msg(sudo)]
-        fn _22_a(&self, ctx: SudoCtx, first: u32, second: u32) -> Result<Response, Self::Error>;
+        fn __ab2(&self, ctx: SudoCtx, first: u32, second: u32) -> Result<Response, Self::Error>;
         #[sv::msg(sudo)]
-        fn _22a2(&self, ctx: SudoCtx, first: u32, second: u32) -> Result<Response, Self::Error>;
+        fn __abc(&self, ctx: SudoCtx, first: u32, second: u32) -> Result<Response, Self::Error>;
         #[sv::msg(sudo)]
-        fn _22ab(&self, ctx: SudoCtx, first: u32, second: u32) -> Result<Response, Self::Error>;
+        fn _a222(&self, ctx: SudoCtx, first: u32, second: u32) -> Result<Response, Self::Error>;
     }
 }
 
@@ -85,18 +85,18 @@ pub mod tu0 {
 
     impl super::ti0::Shapes0 for Contract {
         type Error = StdError;
-        fn _2__a(&self, _ctx: ExecCtx, first: u32, second: u32) -> StdResult<Response> { Ok(Response::new()) }
-        fn _2_a2(&self, _ctx: ExecCtx, first: u32, second: u32) -> StdResult<Response> { Ok(Response::new()) }
-        fn _2_ab(&self, _ctx: ExecCtx, first: u32, second: u32) -> StdResult<Response> { Ok(Response::new()) }
-        fn _2a22(&self, _ctx: ExecCtx, first: u32, second: u32) -> StdResult<Response> { Ok(Response::new()) }
-        fn _2(&self, _ctx: QueryCtx, first: u32, second: u32) -> StdResult<Resp> { Ok(Resp {}) }
-        fn _22(&self, _ctx: QueryCtx, first: u32, second: u32) -> StdResult<Resp> { Ok(Resp {}) }
-        fn _222(&self, _ctx: QueryCtx, first: u32, second: u32) -> StdResult<Resp> { Ok(Resp {}) }
-        fn _2222(&self, _ctx: QueryCtx, first: u32, second: u32) -> StdResult<Resp> { Ok(Resp {}) }
-        fn _222a(&self, _ctx: SudoCtx, first: u32, second: u32) -> StdResult<Response> { Ok(Response::new()) }
-        fn _22_a(&self, _ctx: SudoCtx, first: u32, second: u32) -> StdResult<Response> { Ok(Response::new()) }
-        fn _22a2(&self, _ctx: SudoCtx, first: u32, second: u32) -> StdResult<Response> { Ok(Response::new()) }
-        fn _22ab(&self, _ctx: SudoCtx, first: u32, second: u32) -> StdResult<Response> { Ok(Response::new()) }
+        fn _a22b(&self, _ctx: ExecCtx, first: u32, second: u32) -> StdResult<Response> { Ok(Response::new()) }
+        fn _a2b2(&self, _ctx: ExecCtx, first: u32, second: u32) -> StdResult<Response> { Ok(Response::new()) }
+        fn _a2bc(&self, _ctx: ExecCtx, first: u32, second: u32) -> StdResult<Response> { Ok(Response::new()) }
+        fn _ab22(&self, _ctx: ExecCtx, first: u32, second: u32) -> StdResult<Response> { Ok(Response::new()) }
+        fn ____a(&self, _ctx: QueryCtx, first: u32, second: u32) -> StdResult<Resp> { Ok(Resp {}) }
+        fn ___a2(&self, _ctx: QueryCtx, first: u32, second: u32) -> StdResult<Resp> { Ok(Resp {}) }
+        fn ___ab(&self, _ctx: QueryCtx, first: u32, second: u32) -> StdResult<Resp> { Ok(Resp {}) }
+        fn __a22(&self, _ctx: QueryCtx, first: u32, second: u32) -> StdResult<Resp> { Ok(Resp {}) }
+        fn __a2b(&self, _ctx: SudoCtx, first: u32, second: u32) -> StdResult<Response> { Ok(Response::new()) }
+        fn __ab2(&self, _ctx: SudoCtx, first: u32, second: u32) -> StdResult<Response> { Ok(Response::new()) }
+        fn __abc(&self, _ctx: SudoCtx, first: u32, second: u32) -> StdResult<Response> { Ok(Response::new()) }
+        fn _a222(&self, _ctx: SudoCtx, first: u32, second: u32) -> StdResult<Response> { Ok(Response::new()) }
     }
 
     #[entry_points]
@@ -124,29 +124,29 @@ pub mod tc1 {
         #[sv::msg(instantiate)]
         fn instantiate(&self, _ctx: InstantiateCtx) -> StdResult<Response> { Ok(Response::new()) }
         #[sv::msg(exec)]
-        fn _222_(&self, _ctx: ExecCtx, first: u32, second: u32) -> StdResult<Response> { Ok(Response::new()) }
+        fn ___a(&self, _ctx: ExecCtx, first: u32, second: u32) -> StdResult<Response> { Ok(Response::new()) }
         #[sv::msg(exec)]
-        fn _22_(&self, _ctx: ExecCtx, first: u32, second: u32) -> StdResult<Response> { Ok(Response::new()) }
+        fn __a2(&self, _ctx: ExecCtx, first: u32, second: u32) -> StdResult<Response> { Ok(Response::new()) }
         #[sv::msg(exec)]
-        fn _22a(&self, _ctx: ExecCtx, first: u32, second: u32) -> StdResult<Response> { Ok(Response::new()) }
+        fn __a_b(&self, _ctx: ExecCtx, first: u32, second: u32) -> StdResult<Response> { Ok(Response::new()) }
         #[sv::msg(exec)]
-        fn _2_(&self, _ctx: ExecCtx, first: u32, second: u32) -> StdResult<Response> { Ok(Response::new()) }
+        fn _a22(&self, _ctx: ExecCtx, first: u32, second: u32) -> StdResult<Response> { Ok(Response::new()) }
         #[sv::msg(query)]
-        fn _2_a(&self, _ctx: QueryCtx, first: u32, second: u32) -> StdResult<Resp> { Ok(Resp {}) }
+        fn _a2_b(&self, _ctx: QueryCtx, first: u32, second: u32) -> StdResult<Resp> { Ok(Resp {}) }
         #[sv::msg(query)]
-        fn _2a2(&self, _ctx: QueryCtx, first: u32, second: u32) -> StdResult<Resp> { Ok(Resp {}) }
+        fn _a_b2(&self, _ctx: QueryCtx, first: u32, second: u32) -> StdResult<Resp> { Ok(Resp {}) }
         #[sv::msg(query)]
-        fn _2a2b(&self, _ctx: QueryCtx, first: u32, second: u32) -> StdResult<Resp> { Ok(Resp {}) }
+        fn _a_bc(&self, _ctx: QueryCtx, first: u32, second: u32) -> StdResult<Resp> { Ok(Resp {}) }
         #[sv::msg(query)]
-        fn _2a_b(&self, _ctx: QueryCtx, first: u32, second: u32) -> StdResult<Resp> { Ok(Resp {}) }
+        fn _ab2c(&self, _ctx: QueryCtx, first: u32, second: u32) -> StdResult<Resp> { Ok(Resp {}) }
         #[sv::msg(sudo)]
-        fn _2ab2(&self, _ctx: SudoCtx, first: u32, second: u32) -> StdResult<Response> { Ok(Response::new()) }
+        fn _abc2(&self, _ctx: SudoCtx, first: u32, second: u32) -> StdResult<Response> { Ok(Response::new()) }
         #[sv::msg(sudo)]
-        fn _2abc(&self, _ctx: SudoCtx, first: u32, second: u32) -> StdResult<Response> { Ok(Response::new()) }
+        fn _abcd(&self, _ctx: SudoCtx, first: u32, second: u32) -> StdResult<Response> { Ok(Response::new()) }
         #[sv::msg(sudo)]
-        fn ____a(&self, _ctx: SudoCtx, first: u32, second: u32) -> StdResult<Response> { Ok(Response::new()) }
+        fn a222(&self, _ctx: SudoCtx, first: u32, second: u32) -> StdResult<Response> { Ok(Response::new()) }
         #[sv::msg(sudo)]
-        fn ___a2(&self, _ctx: SudoCtx, first: u32, second: u32) -> StdResult<Response> { Ok(Response::new()) }
+        fn a2222(&self, _ctx: SudoCtx, first: u32, second: u32) -> StdResult<Response> { Ok(Response::new()) }
     }
 }
 
@@ -157,29 +157,29 @@ pub mod ti1 {
     pub trait Shapes1 {
         type Error: From<StdError>;
         #[sv::msg(exec)]
-        fn _2ab2(&self, ctx: ExecCtx, first: u32, second: u32) -> Result<Response, Self::Error>;
+        fn _abc2(&self, ctx: ExecCtx, first: u32, second: u32) -> Result<Response, Self::Error>;
         #[sv::msg(exec)]
-        fn _2abc(&self, ctx: ExecCtx, first: u32, second: u32) -> Result<Response, Self::Error>;
+        fn _abcd(&self, ctx: ExecCtx, first: u32, second: u32) -> Result<Response, Self::Error>;
         #[sv::msg(exec)]
-        fn ____a(&self, ctx: ExecCtx, first: u32, second: u32) -> Result<Response, Self::Error>;
+        fn a222(&self, ctx: ExecCtx, first: u32, second: u32) -> Result<Response, Self::Error>;
         #[sv::msg(exec)]
-        fn ___a2(&self, ctx: ExecCtx, first: u32, second: u32) -> Result<Response, Self::Error>;
+        fn a2222(&self, ctx: ExecCtx, first: u32, second: u32) -> Result<Response, Self::Error>;
         #[sv::msg(query)]
-        fn _222_(&self, ctx: QueryCtx, first: u32, second: u32) -> Result<Resp, Self::Error>;
+        fn ___a(&self, ctx: QueryCtx, first: u32, second: u32) -> Result<Resp, Self::Error>;
         #[sv::msg(query)]
-        fn _22_(&self, ctx: QueryCtx, first: u32, second: u32) -> Result<Resp, Self::Error>;
+        fn __a2(&self, ctx: QueryCtx, first: u32, second: u32) -> Result<Resp, Self::Error>;
         #[sv::msg(query)]
-        fn _22a(&self, ctx: QueryCtx, first: u32, second: u32) -> Result<Resp, Self::Error>;
+        fn __a_b(&self, ctx: QueryCtx, first: u32, second: u32) -> Result<Resp, Self::Error>;
         #[sv::msg(query)]
-        fn _2_(&self, ctx: QueryCtx, first: u32, second: u32) -> Result<Resp, Self::Error>;
+        fn _a22(&self, ctx: QueryCtx, first: u32, second: u32) -> Result<Resp, Self::Error>;
         #[sv::msg(sudo)]
-        fn _2_a(&self, ctx: SudoCtx, first: u32, second: u32) -> Result<Response, Self::Error>;
+        fn _a2_b(&self, ctx: SudoCtx, first: u32, second: u32) -> Result<Response, Self::Error>;
         #[sv::msg(sudo)]
-        fn _2a2(&self, ctx: SudoCtx, first: u32, second: u32) -> Result<Response, Self::Error>;
+        fn _a_b2(&self, ctx: SudoCtx, first: u32, second: u32) -> Result<Response, Self::Error>;
         #[sv::msg(sudo)]
-        fn _2a2b(&self, ctx: SudoCtx, first: u32, second: u32) -> Result<Response, Self::Error>;
+        fn _a_bc(&self, ctx: SudoCtx, first: u32, second: u32) -> Result<Response, Self::Error>;
         #[sv::msg(sudo)]
-        fn _2a_b(&self, ctx: SudoCtx, first: u32, second: u32) -> Result<Response, Self::Error>;
+        fn _ab2c(&self, ctx: SudoCtx, first: u32, second: u32) -> Result<Response, Self::Error>;
     }
 }
 
@@ -189,18 +189,18 @@ pub mod tu1 {
 
     impl super::ti1::Shapes1 for Contract {
         type Error = StdError;
-        fn _2ab2(&self, _ctx: ExecCtx, first: u32, second: u32) -> StdResult<Response> { Ok(Response::new()) }
-        fn _2abc(&self, _ctx: ExecCtx, first: u32, second: u32) -> StdResult<Response> { Ok(Response::new()) }
-        fn ____a(&self, _ctx: ExecCtx, first: u32, second: u32) -> StdResult<Response> { Ok(Response::new()) }
-        fn ___a2(&self, _ctx: ExecCtx, first: u32, second: u32) -> StdResult<Response> { Ok(Response::new()) }
-        fn _222_(&self, _ctx: QueryCtx, first: u32, second: u32) -> StdResult<Resp> { Ok(Resp {}) }
-        fn _22_(&self, _ctx: QueryCtx, first: u32, second: u32) -> StdResult<Resp> { Ok(Resp {}) }
-        fn _22a(&self, _ctx: QueryCtx, first: u32, second: u32) -> StdResult<Resp> { Ok(Resp {}) }
-        fn _2_(&self, _ctx: QueryCtx, first: u32, second: u32) -> StdResult<Resp> { Ok(Resp {}) }
-        fn _2_a(&self, _ctx: SudoCtx, first: u32, second: u32) -> StdResult<Response> { Ok(Response::new()) }
-        fn _2a2(&self, _ctx: SudoCtx, first: u32, second: u32) -> StdResult<Response> { Ok(Response::new()) }
-        fn _2a2b(&self, _ctx: SudoCtx, first: u32, second: u32) -> StdResult<Response> { Ok(Response::new()) }
-        fn _2a_b(&self, _ctx: SudoCtx, first: u32, second: u32) -> StdResult<Response> { Ok(Response::new()) }
+        fn _abc2(&self, _ctx: ExecCtx, first: u32, second: u32) -> StdResult<Response> { Ok(Response::new()) }
+        fn _abcd(&self, _ctx: ExecCtx, first: u32, second: u32) -> StdResult<Response> { Ok(Response::new()) }
+        fn a222(&self, _ctx: ExecCtx, first: u32, second: u32) -> StdResult<Response> { Ok(Response::new()) }
+        fn a2222(&self, _ctx: ExecCtx, first: u32, second: u32) -> StdResult<Response> { Ok(Response::new()) }
+        fn ___a(&self, _ctx: QueryCtx, first: u32, second: u32) -> StdResult<Resp> { Ok(Resp {}) }
+        fn __a2(&self, _ctx: QueryCtx, first: u32, second: u32) -> StdResult<Resp> { Ok(Resp {}) }
+        fn __a_b(&self, _ctx: QueryCtx, first: u32, second: u32) -> StdResult<Resp> { Ok(Resp {}) }
+        fn _a22(&self, _ctx: QueryCtx, first: u32, second: u32) -> StdResult<Resp> { Ok(Resp {}) }
+        fn _a2_b(&self, _ctx: SudoCtx, first: u32, second: u32) -> StdResult<Response> { Ok(Response::new()) }
+        fn _a_b2(&self, _ctx: SudoCtx, first: u32, second: u32) -> StdResult<Response> { Ok(Response::new()) }
+        fn _a_bc(&self, _ctx: SudoCtx, first: u32, second: u32) -> StdResult<Response> { Ok(Response::new()) }
+        fn _ab2c(&self, _ctx: SudoCtx, first: u32, second: u32) -> StdResult<Response> { Ok(Response::new()) }
     }
 
     #[entry_points]
@@ -228,29 +228,29 @@ pub mod tc2 {
         #[sv::msg(instantiate)]
         fn instantiate(&self, _ctx: InstantiateCtx) -> StdResult<Response> { Ok(Response::new()) }
         #[sv::msg(exec)]
-        fn _22_2(&self, _ctx: ExecCtx, first: u32, second: u32) -> StdResult<Response> { Ok(Response::new()) }
+        fn ___a_(&self, _ctx: ExecCtx, first: u32, second: u32) -> StdResult<Response> { Ok(Response::new()) }
         #[sv::msg(exec)]
-        fn _22__(&self, _ctx: ExecCtx, first: u32, second: u32) -> StdResult<Response> { Ok(Response::new()) }
+        fn __a2_(&self, _ctx: ExecCtx, first: u32, second: u32) -> StdResult<Response> { Ok(Response::new()) }
         #[sv::msg(exec)]
-        fn _22a_(&self, _ctx: ExecCtx, first: u32, second: u32) -> StdResult<Response> { Ok(Response::new()) }
+        fn __ab(&self, _ctx: ExecCtx, first: u32, second: u32) -> StdResult<Response> { Ok(Response::new()) }
         #[sv::msg(exec)]
-        fn _2__(&self, _ctx: ExecCtx, first: u32, second: u32) -> StdResult<Response> { Ok(Response::new()) }
+        fn _a22_(&self, _ctx: ExecCtx, first: u32, second: u32) -> StdResult<Response> { Ok(Response::new()) }
         #[sv::msg(query)]
-        fn _2_a_(&self, _ctx: QueryCtx, first: u32, second: u32) -> StdResult<Resp> { Ok(Resp {}) }
+        fn _a2b(&self, _ctx: QueryCtx, first: u32, second: u32) -> StdResult<Resp> { Ok(Resp {}) }
         #[sv::msg(query)]
-        fn _2a2_(&self, _ctx: QueryCtx, first: u32, second: u32) -> StdResult<Resp> { Ok(Resp {}) }
+        fn _ab2(&self, _ctx: QueryCtx, first: u32, second: u32) -> StdResult<Resp> { Ok(Resp {}) }
         #[sv::msg(query)]
-        fn _2ab(&self, _ctx: QueryCtx, first: u32, second: u32) -> StdResult<Resp> { Ok(Resp {}) }
+        fn _ab_c(&self, _ctx: QueryCtx, first: u32, second: u32) -> StdResult<Resp> { Ok(Resp {}) }
         #[sv::msg(query)]
-        fn ___a(&self, _ctx: QueryCtx, first: u32, second: u32) -> StdResult<Resp> { Ok(Resp {}) }
+        fn a222_(&self, _ctx: QueryCtx, first: u32, second: u32) -> StdResult<Resp> { Ok(Resp {}) }
         #[sv::msg(sudo)]
-        fn ___ab(&self, _ctx: SudoCtx, first: u32, second: u32) -> StdResult<Response> { Ok(Response::new()) }
+        fn a222b(&self, _ctx: SudoCtx, first: u32, second: u32) -> StdResult<Response> { Ok(Response::new()) }
         #[sv::msg(sudo)]
-        fn __a2(&self, _ctx: SudoCtx, first: u32, second: u32) -> StdResult<Response> { Ok(Response::new()) }
+        fn a22_b(&self, _ctx: SudoCtx, first: u32, second: u32) -> StdResult<Response> { Ok(Response::new()) }
         #[sv::msg(sudo)]
-        fn __a22(&self, _ctx: SudoCtx, first: u32, second: u32) -> StdResult<Response> { Ok(Response::new()) }
+        fn a22b2(&self, _ctx: SudoCtx, first: u32, second: u32) -> StdResult<Response> { Ok(Response::new()) }
         #[sv::msg(sudo)]
-        fn __a2b(&self, _ctx: SudoCtx, first: u32, second: u32) -> StdResult<Response> { Ok(Response::new()) }
+        fn a22bc(&self, _ctx: SudoCtx, first: u32, second: u32) -> StdResult<Response> { Ok(Response::new()) }
     }
 }
 
@@ -261,29 +261,29 @@ pub mod ti2 {
     pub trait Shapes2 {
         type Error: From<StdError>;
         #[sv::msg(exec)]
-        fn ___ab(&self, ctx: ExecCtx, first: u32, second: u32) -> Result<Response, Self::Error>;
+        fn a222b(&self, ctx: ExecCtx, first: u32, second: u32) -> Result<Response, Self::Error>;
         #[sv::msg(exec)]
-        fn __a2(&self, ctx: ExecCtx, first: u32, second: u32) -> Result<Response, Self::Error>;
+        fn a22_b(&self, ctx: ExecCtx, first: u32, second: u32) -> Result<Response, Self::Error>;
         #[sv::msg(exec)]
-        fn __a22(&self, ctx: ExecCtx, first: u32, second: u32) -> Result<Response, Self::Error>;
+        fn a22b2(&self, ctx: ExecCtx, first: u32, second: u32) -> Result<Response, Self::Error>;
         #[sv::msg(exec)]
-        fn __a2b(&self, ctx: ExecCtx, first: u32, second: u32) -> Result<Response, Self::Error>;
+        fn a22bc(&self, ctx: ExecCtx, first: u32, second: u32) -> Result<Response, Self::Error>;
         #[sv::msg(query)]
-        fn _22_2(&self, ctx: QueryCtx, first: u32, second: u32) -> Result<Resp, Self::Error>;
+        fn ___a_(&self, ctx: QueryCtx, first: u32, second: u32) -> Result<Resp, Self::Error>;
         #[sv::msg(query)]
-        fn _22__(&self, ctx: QueryCtx, first: u32, second: u32) -> Result<Resp, Self::Error>;
+        fn __a2_(&self, ctx: QueryCtx, first: u32, second: u32) -> Result<Resp, Self::Error>;
         #[sv::msg(query)]
-        fn _22a_(&self, ctx: QueryCtx, first: u32, second: u32) -> Result<Resp, Self::Error>;
+        fn __ab(&self, ctx: QueryCtx, first: u32, second: u32) -> Result<Resp, Self::Error>;
         #[sv::msg(query)]
-        fn _2__(&self, ctx: QueryCtx, first: u32, second: u32) -> Result<Resp, Self::Error>;
+        fn _a22_(&self, ctx: QueryCtx, first: u32, second: u32) -> Result<Resp, Self::Error>;
         #[sv::msg(sudo)]
-        fn _2_a_(&self, ctx: SudoCtx, first: u32, second: u32) -> Result<Response, Self::Error>;
+        fn _a2b(&self, ctx: SudoCtx, first: u32, second: u32) -> Result<Response, Self::Error>;
         #[sv::msg(sudo)]
-        fn _2a2_(&self, ctx: SudoCtx, first: u32, second: u32) -> Result<Response, Self::Error>;
+        fn _ab2(&self, ctx: SudoCtx, first: u32, second: u32) -> Result<Response, Self::Error>;
         #[sv::msg(sudo)]
-        fn _2ab(&self, ctx: SudoCtx, first: u32, second: u32) -> Result<Response, Self::Error>;
+        fn _ab_c(&self, ctx: SudoCtx, first: u32, second: u32) -> Result<Response, Self::Error>;
         #[sv::msg(sudo)]
-        fn ___a(&self, ctx: SudoCtx, first: u32, second: u32) -> Result<Response, Self::Error>;
+        fn a222_(&self, ctx: SudoCtx, first: u32, second: u32) -> Result<Response, Self::Error>;
     }
 }
 
@@ -293,18 +293,18 @@ pub mod tu2 {
 
     impl super::ti2::Shapes2 for Contract {
         type Error = StdError;
-        fn ___ab(&self, _ctx: ExecCtx, first: u32, second: u32) -> StdResult<Response> { Ok(Response::new()) }
-        fn __a2(&self, _ctx: ExecCtx, first: u32, second: u32) -> StdResult<Response> { Ok(Response::new()) }
-        fn __a22(&self, _ctx: ExecCtx, first: u32, second: u32) -> StdResult<Response> { Ok(Response::new()) }
-        fn __a2b(&self, _ctx: ExecCtx, first: u32, second: u32) -> StdResult<Response> { Ok(Response::new()) }
-        fn _22_2(&self, _ctx: QueryCtx, first: u32, second: u32) -> StdResult<Resp> { Ok(Resp {}) }
-        fn _22__(&self, _ctx: QueryCtx, first: u32, second: u32) -> StdResult<Resp> { Ok(Resp {}) }
-        fn _22a_(&self, _ctx: QueryCtx, first: u32, second: u32) -> StdResult<Resp> { Ok(Resp {}) }
-        fn _2__(&self, _ctx: QueryCtx, first: u32, second: u32) -> StdResult<Resp> { Ok(Resp {}) }
-        fn _2_a_(&self, _ctx: SudoCtx, first: u32, second: u32) -> StdResult<Response> { Ok(Response::new()) }
-        fn _2a2_(&self, _ctx: SudoCtx, first: u32, second: u32) -> StdResult<Response> { Ok(Response::new()) }
-        fn _2ab(&self, _ctx: SudoCtx, first: u32, second: u32) -> StdResult<Response> { Ok(Response::new()) }
-        fn ___a(&self, _ctx: SudoCtx, first: u32, second: u32) -> StdResult<Response> { Ok(Response::new()) }
+        fn a222b(&self, _ctx: ExecCtx, first: u32, second: u32) -> StdResult<Response> { Ok(Response::new()) }
+        fn a22_b(&self, _ctx: ExecCtx, first: u32, second: u32) -> StdResult<Response> { Ok(Response::new()) }
+        fn a22b2(&self, _ctx: ExecCtx, first: u32, second: u32) -> StdResult<Response> { Ok(Response::new()) }
+        fn a22bc(&self, _ctx: ExecCtx, first: u32, second: u32) -> StdResult<Response> { Ok(Response::new()) }
+        fn ___a_(&self, _ctx: QueryCtx, first: u32, second: u32) -> StdResult<Resp> { Ok(Resp {}) }
+        fn __a2_(&self, _ctx: QueryCtx, first: u32, second: u32) -> StdResult<Resp> { Ok(Resp {}) }
+        fn __ab(&self, _ctx: QueryCtx, first: u32, second: u32) -> StdResult<Resp> { Ok(Resp {}) }
+        fn _a22_(&self, _ctx: QueryCtx, first: u32, second: u32) -> StdResult<Resp> { Ok(Resp {}) }
+        fn _a2b(&self, _ctx: SudoCtx, first: u32, second: u32) -> StdResult<Response> { Ok(Response::new()) }
+        fn _ab2(&self, _ctx: SudoCtx, first: u32, second: u32) -> StdResult<Response> { Ok(Response::new()) }
+        fn _ab_c(&self, _ctx: SudoCtx, first: u32, second: u32) -> StdResult<Response> { Ok(Response::new()) }
+        fn a222_(&self, _ctx: SudoCtx, first: u32, second: u32) -> StdResult<Response> { Ok(Response::new()) }
     }
 
     #[entry_points]
@@ -332,29 +332,29 @@ pub mod tc3 {
         #[sv::msg(instantiate)]
         fn instantiate(&self, _ctx: InstantiateCtx) -> StdResult<Response> { Ok(Response::new()) }
         #[sv::msg(exec)]
-        fn _2_2(&self, _ctx: ExecCtx, first: u32, second: u32) -> StdResult<Response> { Ok(Response::new()) }
+        fn __a(&self, _ctx: ExecCtx, first: u32, second: u32) -> StdResult<Response> { Ok(Response::new()) }
         #[sv::msg(exec)]
-        fn _2_22(&self, _ctx: ExecCtx, first: u32, second: u32) -> StdResult<Response> { Ok(Response::new()) }
+        fn __a_2(&self, _ctx: ExecCtx, first: u32, second: u32) -> StdResult<Response> { Ok(Response::new()) }
         #[sv::msg(exec)]
-        fn _2_2a(&self, _ctx: ExecCtx, first: u32, second: u32) -> StdResult<Response> { Ok(Response::new()) }
+        fn __ab_(&self, _ctx: ExecCtx, first: u32, second: u32) -> StdResult<Response> { Ok(Response::new()) }
         #[sv::msg(exec)]
-        fn _2___(&self, _ctx: ExecCtx, first: u32, second: u32) -> StdResult<Response> { Ok(Response::new()) }
+        fn _a2_2(&self, _ctx: ExecCtx, first: u32, second: u32) -> StdResult<Response> { Ok(Response::new()) }
         #[sv::msg(query)]
-        fn _2a(&self, _ctx: QueryCtx, first: u32, second: u32) -> StdResult<Resp> { Ok(Resp {}) }
+        fn _a2b_(&self, _ctx: QueryCtx, first: u32, second: u32) -> StdResult<Resp> { Ok(Resp {}) }
         #[sv::msg(query)]
-        fn _2a_2(&self, _ctx: QueryCtx, first: u32, second: u32) -> StdResult<Resp> { Ok(Resp {}) }
+        fn _ab2_(&self, _ctx: QueryCtx, first: u32, second: u32) -> StdResult<Resp> { Ok(Resp {}) }
         #[sv::msg(query)]
-        fn _2ab_(&self, _ctx: QueryCtx, first: u32, second: u32) -> StdResult<Resp> { Ok(Resp {}) }
+        fn _abc(&self, _ctx: QueryCtx, first: u32, second: u32) -> StdResult<Resp> { Ok(Resp {}) }
         #[sv::msg(query)]
-        fn ___a_(&self, _ctx: QueryCtx, first: u32, second: u32) -> StdResult<Resp> { Ok(Resp {}) }
+        fn a22_2(&self, _ctx: QueryCtx, first: u32, second: u32) -> StdResult<Resp> { Ok(Resp {}) }
         #[sv::msg(sudo)]
-        fn __a2_(&self, _ctx: SudoCtx, first: u32, second: u32) -> StdResult<Response> { Ok(Response::new()) }
+        fn a22b(&self, _ctx: SudoCtx, first: u32, second: u32) -> StdResult<Response> { Ok(Response::new()) }
         #[sv::msg(sudo)]
-        fn __a_b(&self, _ctx: SudoCtx, first: u32, second: u32) -> StdResult<Response> { Ok(Response::new()) }
+        fn a2_b2(&self, _ctx: SudoCtx, first: u32, second: u32) -> StdResult<Response> { Ok(Response::new()) }
         #[sv::msg(sudo)]
-        fn __ab2(&self, _ctx: SudoCtx, first: u32, second: u32) -> StdResult<Response> { Ok(Response::new()) }
+        fn a2_bc(&self, _ctx: SudoCtx, first: u32, second: u32) -> StdResult<Response> { Ok(Response::new()) }
         #[sv::msg(sudo)]
-        fn __abc(&self, _ctx: SudoCtx, first: u32, second: u32) -> StdResult<Response> { Ok(Response::new()) }
+        fn a2b22(&self, _ctx: SudoCtx, first: u32, second: u32) -> StdResult<Response> { Ok(Response::new()) }
     }
 }
 
@@ -365,29 +365,29 @@ pub mod ti3 {
     pub trait Shapes3 {
         type Error: From<StdError>;
         #[sv::msg(exec)]
-        fn __a2_(&self, ctx: ExecCtx, first: u32, second: u32) -> Result<Response, Self::Error>;
+        fn a22b(&self, ctx: ExecCtx, first: u32, second: u32) -> Result<Response, Self::Error>;
         #[sv::msg(exec)]
-        fn __a_b(&self, ctx: ExecCtx, first: u32, second: u32) -> Result<Response, Self::Error>;
+        fn a2_b2(&self, ctx: ExecCtx, first: u32, second: u32) -> Result<Response, Self::Error>;
         #[sv::msg(exec)]
-        fn __ab2(&self, ctx: ExecCtx, first: u32, second: u32) -> Result<Response, Self::Error>;
+        fn a2_bc(&self, ctx: ExecCtx, first: u32, second: u32) -> Result<Response, Self::Error>;
         #[sv::msg(exec)]
-        fn __abc(&self, ctx: ExecCtx, first: u32, second: u32) -> Result<Response, Self::Error>;
+        fn a2b22(&self, ctx: ExecCtx, first: u32, second: u32) -> Result<Response, Self::Error>;
         #[sv::msg(query)]
-        fn _2_2(&self, ctx: QueryCtx, first: u32, second: u32) -> Result<Resp, Self::Error>;
+        fn __a(&self, ctx: QueryCtx, first: u32, second: u32) -> Result<Resp, Self::Error>;
         #[sv::msg(query)]
-        fn _2_22(&self, ctx: QueryCtx, first: u32, second: u32) -> Result<Resp, Self::Error>;
+        fn __a_2(&self, ctx: QueryCtx, first: u32, second: u32) -> Result<Resp, Self::Error>;
         #[sv::msg(query)]
-        fn _2_2a(&self, ctx: QueryCtx, first: u32, second: u32) -> Result<Resp, Self::Error>;
+        fn __ab_(&self, ctx: QueryCtx, first: u32, second: u32) -> Result<Resp, Self::Error>;
         #[sv::msg(query)]
-        fn _2___(&self, ctx: QueryCtx, first: u32, second: u32) -> Result<Resp, Self::Error>;
+        fn _a2_2(&self, ctx: QueryCtx, first: u32, second: u32) -> Result<Resp, Self::Error>;
         #[sv::msg(sudo)]
-        fn _2a(&self, ctx: SudoCtx, first: u32, second: u32) -> Result<Response, Self::Error>;
+        fn _a2b_(&self, ctx: SudoCtx, first: u32, second: u32) -> Result<Response, Self::Error>;
         #[sv::msg(sudo)]
-        fn _2a_2(&self, ctx: SudoCtx, first: u32, second: u32) -> Result<Response, Self::Error>;
+        fn _ab2_(&self, ctx: SudoCtx, first: u32, second: u32) -> Result<Response, Self::Error>;
         #[sv::msg(sudo)]
-        fn _2ab_(&self, ctx: SudoCtx, first: u32, second: u32) -> Result<Response, Self::Error>;
+        fn _abc(&self, ctx: SudoCtx, first: u32, second: u32) -> Result<Response, Self::Error>;
         #[sv::msg(sudo)]
-        fn ___a_(&self, ctx: SudoCtx, first: u32, second: u32) -> Result<Response, Self::Error>;
+        fn a22_2(&self, ctx: SudoCtx, first: u32, second: u32) -> Result<Response, Self::Error>;
     }
 }
 
@@ -397,18 +397,18 @@ pub mod tu3 {
 
     impl super::ti3::Shapes3 for Contract {
         type Error = StdError;
-        fn __a2_(&self, _ctx: ExecCtx, first: u32, second: u32) -> StdResult<Response> { Ok(Response::new()) }
-        fn __a_b(&self, _ctx: ExecCtx, first: u32, second: u32) -> StdResult<Response> { Ok(Response::new()) }
-        fn __ab2(&self, _ctx: ExecCtx, first: u32, second: u32) -> StdResult<Response> { Ok(Response::new()) }
-        fn __abc(&self, _ctx: ExecCtx, first: u32, second: u32) -> StdResult<Response> { Ok(Response::new()) }
-        fn _2_2(&self, _ctx: QueryCtx, first: u32, second: u32) -> StdResult<Resp> { Ok(Resp {}) }
-        fn _2_22(&self, _ctx: QueryCtx, first: u32, second: u32) -> StdResult<Resp> { Ok(Resp {}) }
-        fn _2_2a(&self, _ctx: QueryCtx, first: u32, second: u32) -> StdResult<Resp> { Ok(Resp {}) }
-        fn _2___(&self, _ctx: QueryCtx, first: u32, second: u32) -> StdResult<Resp> { Ok(Resp {}) }
-        fn _2a(&self, _ctx: SudoCtx, first: u32, second: u32) -> StdResult<Response> { Ok(Response::new()) }
-        fn _2a_2(&self, _ctx: SudoCtx, first: u32, second: u32) -> StdResult<Response> { Ok(Response::new()) }
-        fn _2ab_(&self, _ctx: SudoCtx, first: u32, second: u32) -> StdResult<Response> { Ok(Response::new()) }
-        fn ___a_(&self, _ctx: SudoCtx, first: u32, second: u32) -> StdResult<Response> { Ok(Response::new()) }
+        fn a22b(&self, _ctx: ExecCtx, first: u32, second: u32) -> StdResult<Response> { Ok(Response::new()) }
+        fn a2_b2(&self, _ctx: ExecCtx, first: u32, second: u32) -> StdResult<Response> { Ok(Response::new()) }
+        fn a2_bc(&self, _ctx: ExecCtx, first: u32, second: u32) -> StdResult<Response> { Ok(Response::new()) }
+        fn a2b22(&self, _ctx: ExecCtx, first: u32, second: u32) -> StdResult<Response> { Ok(Response::new()) }
+        fn __a(&self, _ctx: QueryCtx, first: u32, second: u32) -> StdResult<Resp> { Ok(Resp {}) }
+        fn __a_2(&self, _ctx: QueryCtx, first: u32, second: u32) -> StdResult<Resp> { Ok(Resp {}) }
+        fn __ab_(&self, _ctx: QueryCtx, first: u32, second: u32) -> StdResult<Resp> { Ok(Resp {}) }
+        fn _a2_2(&self, _ctx: QueryCtx, first: u32, second: u32) -> StdResult<Resp> { Ok(Resp {}) }
+        fn _a2b_(&self, _ctx: SudoCtx, first: u32, second: u32) -> StdResult<Response> { Ok(Response::new()) }
+        fn _ab2_(&self, _ctx: SudoCtx, first: u32, second: u32) -> StdResult<Response> { Ok(Response::new()) }
+        fn _abc(&self, _ctx: SudoCtx, first: u32, second: u32) -> StdResult<Response> { Ok(Response::new()) }
+        fn a22_2(&self, _ctx: SudoCtx, first: u32, second: u32) -> StdResult<Response> { Ok(Response::new()) }
     }
 
     #[entry_points]
@@ -436,29 +436,29 @@ pub mod tc4 {
         #[sv::msg(instantiate)]
         fn instantiate(&self, _ctx: InstantiateCtx) -> StdResult<Response> { Ok(Response::new()) }
         #[sv::msg(exec)]
-        fn _2_2_(&self, _ctx: ExecCtx, first: u32, second: u32) -> StdResult<Response> { Ok(Response::new()) }
+        fn __a_(&self, _ctx: ExecCtx, first: u32, second: u32) -> StdResult<Response> { Ok(Response::new()) }
         #[sv::msg(exec)]
-        fn _2a_(&self, _ctx: ExecCtx, first: u32, second: u32) -> StdResult<Response> { Ok(Response::new()) }
+        fn _a2(&self, _ctx: ExecCtx, first: u32, second: u32) -> StdResult<Response> { Ok(Response::new()) }
         #[sv::msg(exec)]
-        fn __2(&self, _ctx: ExecCtx, first: u32, second: u32) -> StdResult<Response> { Ok(Response::new()) }
+        fn _a_22(&self, _ctx: ExecCtx, first: u32, second: u32) -> StdResult<Response> { Ok(Response::new()) }
         #[sv::msg(exec)]
-        fn __222(&self, _ctx: ExecCtx, first: u32, second: u32) -> StdResult<Response> { Ok(Response::new()) }
+        fn _a_2b(&self, _ctx: ExecCtx, first: u32, second: u32) -> StdResult<Response> { Ok(Response::new()) }
         #[sv::msg(query)]
-        fn __22a(&self, _ctx: QueryCtx, first: u32, second: u32) -> StdResult<Resp> { Ok(Resp {}) }
+        fn _a__b(&self, _ctx: QueryCtx, first: u32, second: u32) -> StdResult<Resp> { Ok(Resp {}) }
         #[sv::msg(query)]
-        fn __2a2(&self, _ctx: QueryCtx, first: u32, second: u32) -> StdResult<Resp> { Ok(Resp {}) }
+        fn _ab_2(&self, _ctx: QueryCtx, first: u32, second: u32) -> StdResult<Resp> { Ok(Resp {}) }
         #[sv::msg(query)]
-        fn __2ab(&self, _ctx: QueryCtx, first: u32, second: u32) -> StdResult<Resp> { Ok(Resp {}) }
+        fn _abc_(&self, _ctx: QueryCtx, first: u32, second: u32) -> StdResult<Resp> { Ok(Resp {}) }
         #[sv::msg(query)]
-        fn __a(&self, _ctx: QueryCtx, first: u32, second: u32) -> StdResult<Resp> { Ok(Resp {}) }
+        fn a22b_(&self, _ctx: QueryCtx, first: u32, second: u32) -> StdResult<Resp> { Ok(Resp {}) }
         #[sv::msg(sudo)]
-        fn __a_2(&self, _ctx: SudoCtx, first: u32, second: u32) -> StdResult<Response> { Ok(Response::new()) }
+        fn a2_22(&self, _ctx: SudoCtx, first: u32, second: u32) -> StdResult<Response> { Ok(Response::new()) }
         #[sv::msg(sudo)]
-        fn __ab(&self, _ctx: SudoCtx, first: u32, second: u32) -> StdResult<Response> { Ok(Response::new()) }
+        fn a2b2(&self, _ctx: SudoCtx, first: u32, second: u32) -> StdResult<Response> { Ok(Response::new()) }
         #[sv::msg(sudo)]
-        fn _a22(&self, _ctx: SudoCtx, first: u32, second: u32) -> StdResult<Response> { Ok(Response::new()) }
+        fn a2b2c(&self, _ctx: SudoCtx, first: u32, second: u32) -> StdResult<Response> { Ok(Response::new()) }
         #[sv::msg(sudo)]
-        fn _a222(&self, _ctx: SudoCtx, first: u32, second: u32) -> StdResult<Response> { Ok(Response::new()) }
+        fn a2b_c(&self, _ctx: SudoCtx, first: u32, second: u32) -> StdResult<Response> { Ok(Response::new()) }
     }
 }
 
@@ -469,29 +469,29 @@ pub mod ti4 {
     pub trait Shapes4 {
         type Error: From<StdError>;
         #[sv::msg(exec)]
-        fn __a_2(&self, ctx: ExecCtx, first: u32, second: u32) -> Result<Response, Self::Error>;
+        fn a2_22(&self, ctx: ExecCtx, first: u32, second: u32) -> Result<Response, Self::Error>;
         #[sv::msg(exec)]
-        fn __ab(&self, ctx: ExecCtx, first: u32, second: u32) -> Result<Response, Self::Error>;
+        fn a2b2(&self, ctx: ExecCtx, first: u32, second: u32) -> Result<Response, Self::Error>;
         #[sv::msg(exec)]
-        fn _a22(&self, ctx: ExecCtx, first: u32, second: u32) -> Result<Response, Self::Error>;
+        fn a2b2c(&self, ctx: ExecCtx, first: u32, second: u32) -> Result<Response, Self::Error>;
         #[sv::msg(exec)]
-        fn _a222(&self, ctx: ExecCtx, first: u32, second: u32) -> Result<Response, Self::Error>;
+        fn a2b_c(&self, ctx: ExecCtx, first: u32, second: u32) -> Result<Response, Self::Error>;
         #[sv::msg(query)]
-        fn _2_2_(&self, ctx: QueryCtx, first: u32, second: u32) -> Result<Resp, Self::Error>;
+        fn __a_(&self, ctx: QueryCtx, first: u32, second: u32) -> Result<Resp, Self::Error>;
         #[sv::msg(query)]
-        fn _2a_(&self, ctx: QueryCtx, first: u32, second: u32) -> Result<Resp, Self::Error>;
+        fn _a2(&self, ctx: QueryCtx, first: u32, second: u32) -> Result<Resp, Self::Error>;
         #[sv::msg(query)]
-        fn __2(&self, ctx: QueryCtx, first: u32, second: u32) -> Result<Resp, Self::Error>;
+        fn _a_22(&self, ctx: QueryCtx, first: u32, second: u32) -> Result<Resp, Self::Error>;
         #[sv::msg(query)]
-        fn __222(&self, ctx: QueryCtx, first: u32, second: u32) -> Result<Resp, Self::Error>;
+        fn _a_2b(&self, ctx: QueryCtx, first: u32, second: u32) -> Result<Resp, Self::Error>;
         #[sv::msg(sudo)]
-        fn __22a(&self, ctx: SudoCtx, first: u32, second: u32) -> Result<Response, Self::Error>;
+        fn _a__b(&self, ctx: SudoCtx, first: u32, second: u32) -> Result<Response, Self::Error>;
         #[sv::msg(sudo)]
-        fn __2a2(&self, ctx: SudoCtx, first: u32, second: u32) -> Result<Response, Self::Error>;
+        fn _ab_2(&self, ctx: SudoCtx, first: u32, second: u32) -> Result<Response, Self::Error>;
         #[sv::msg(sudo)]
-        fn __2ab(&self, ctx: SudoCtx, first: u32, second: u32) -> Result<Response, Self::Error>;
+        fn _abc_(&self, ctx: SudoCtx, first: u32, second: u32) -> Result<Response, Self::Error>;
         #[sv::msg(sudo)]
-        fn __a(&self, ctx: SudoCtx, first: u32, second: u32) -> Result<Response, Self::Error>;
+        fn a22b_(&self, ctx: SudoCtx, first: u32, second: u32) -> Result<Response, Self::Error>;
     }
 }
 
@@ -501,18 +501,18 @@ pub mod tu4 {
 
     impl super::ti4::Shapes4 for Contract {
         type Error = StdError;
-        fn __a_2(&self, _ctx: ExecCtx, first: u32, second: u32) -> StdResult<Response> { Ok(Response::new()) }
-        fn __ab(&self, _ctx: ExecCtx, first: u32, second: u32) -> StdResult<Response> { Ok(Response::new()) }
-        fn _a22(&self, _ctx: ExecCtx, first: u32, second: u32) -> StdResult<Response> { Ok(Response::new()) }
-        fn _a222(&self, _ctx: ExecCtx, first: u32, second: u32) -> StdResult<Response> { Ok(Response::new()) }
-        fn _2_2_(&self, _ctx: QueryCtx, first: u32, second: u32) -> StdResult<Resp> { Ok(Resp {}) }
-        fn _2a_(&self, _ctx: QueryCtx, first: u32, second: u32) -> StdResult<Resp> { Ok(Resp {}) }
-        fn __2(&self, _ctx: QueryCtx, first: u32, second: u32) -> StdResult<Resp> { Ok(Resp {}) }
-        fn __222(&self, _ctx: QueryCtx, first: u32, second: u32) -> StdResult<Resp> { Ok(Resp {}) }
-        fn __22a(&self, _ctx: SudoCtx, first: u32, second: u32) -> StdResult<Response> { Ok(Response::new()) }
-        fn __2a2(&self, _ctx: SudoCtx, first: u32, second: u32) -> StdResult<Response> { Ok(Response::new()) }
-        fn __2ab(&self, _ctx: SudoCtx, first: u32, second: u32) -> StdResult<Response> { Ok(Response::new()) }
-        fn __a(&self, _ctx: SudoCtx, first: u32, second: u32) -> StdResult<Response> { Ok(Response::new()) }
+        fn a2_22(&self, _ctx: ExecCtx, first: u32, second: u32) -> StdResult<Response> { Ok(Response::new()) }
+        fn a2b2(&self, _ctx: ExecCtx, first: u32, second: u32) -> StdResult<Response> { Ok(Response::new()) }
+        fn a2b2c(&self, _ctx: ExecCtx, first: u32, second: u32) -> StdResult<Response> { Ok(Response::new()) }
+        fn a2b_c(&self, _ctx: ExecCtx, first: u32, second: u32) -> StdResult<Response> { Ok(Response::new()) }
+        fn __a_(&self, _ctx: QueryCtx, first: u32, second: u32) -> StdResult<Resp> { Ok(Resp {}) }
+        fn _a2(&self, _ctx: QueryCtx, first: u32, second: u32) -> StdResult<Resp> { Ok(Resp {}) }
+        fn _a_22(&self, _ctx: QueryCtx, first: u32, second: u32) -> StdResult<Resp> { Ok(Resp {}) }
+        fn _a_2b(&self, _ctx: QueryCtx, first: u32, second: u32) -> StdResult<Resp> { Ok(Resp {}) }
+        fn _a__b(&self, _ctx: SudoCtx, first: u32, second: u32) -> StdResult<Response> { Ok(Response::new()) }
+        fn _ab_2(&self, _ctx: SudoCtx, first: u32, second: u32) -> StdResult<Response> { Ok(Response::new()) }
+        fn _abc_(&self, _ctx: SudoCtx, first: u32, second: u32) -> StdResult<Response> { Ok(Response::new()) }
+        fn a22b_(&self, _ctx: SudoCtx, first: u32, second: u32) -> StdResult<Response> { Ok(Response::new()) }
     }
 
     #[entry_points]
@@ -540,29 +540,29 @@ pub mod tc5 {
         #[sv::msg(instantiate)]
         fn instantiate(&self, _ctx: InstantiateCtx) -> StdResult<Response> { Ok(Response::new()) }
         #[sv::msg(exec)]
-        fn _2__2(&self, _ctx: ExecCtx, first: u32, second: u32) -> StdResult<Response> { Ok(Response::new()) }
+        fn __a__(&self, _ctx: ExecCtx, first: u32, second: u32) -> StdResult<Response> { Ok(Response::new()) }
         #[sv::msg(exec)]
-        fn _2a__(&self, _ctx: ExecCtx, first: u32, second: u32) -> StdResult<Response> { Ok(Response::new()) }
+        fn _a2_(&self, _ctx: ExecCtx, first: u32, second: u32) -> StdResult<Response> { Ok(Response::new()) }
         #[sv::msg(exec)]
-        fn __2_(&self, _ctx: ExecCtx, first: u32, second: u32) -> StdResult<Response> { Ok(Response::new()) }
+        fn _a_b(&self, _ctx: ExecCtx, first: u32, second: u32) -> StdResult<Response> { Ok(Response::new()) }
         #[sv::msg(exec)]
-        fn __a_(&self, _ctx: ExecCtx, first: u32, second: u32) -> StdResult<Response> { Ok(Response::new()) }
+        fn a22(&self, _ctx: ExecCtx, first: u32, second: u32) -> StdResult<Response> { Ok(Response::new()) }
         #[sv::msg(query)]
-        fn __ab_(&self, _ctx: QueryCtx, first: u32, second: u32) -> StdResult<Resp> { Ok(Resp {}) }
+        fn a2_2b(&self, _ctx: QueryCtx, first: u32, second: u32) -> StdResult<Resp> { Ok(Resp {}) }
         #[sv::msg(query)]
-        fn _a2(&self, _ctx: QueryCtx, first: u32, second: u32) -> StdResult<Resp> { Ok(Resp {}) }
+        fn a2__b(&self, _ctx: QueryCtx, first: u32, second: u32) -> StdResult<Resp> { Ok(Resp {}) }
         #[sv::msg(query)]
-        fn _a22_(&self, _ctx: QueryCtx, first: u32, second: u32) -> StdResult<Resp> { Ok(Resp {}) }
+        fn a2b2_(&self, _ctx: QueryCtx, first: u32, second: u32) -> StdResult<Resp> { Ok(Resp {}) }
         #[sv::msg(query)]
-        fn _a22b(&self, _ctx: QueryCtx, first: u32, second: u32) -> StdResult<Resp> { Ok(Resp {}) }
+        fn a2bc(&self, _ctx: QueryCtx, first: u32, second: u32) -> StdResult<Resp> { Ok(Resp {}) }
         #[sv::msg(sudo)]
-        fn _a2_b(&self, _ctx: SudoCtx, first: u32, second: u32) -> StdResult<Response> { Ok(Response::new()) }
+        fn a2bc2(&self, _ctx: SudoCtx, first: u32, second: u32) -> StdResult<Response> { Ok(Response::new()) }
         #[sv::msg(sudo)]
-        fn _a2b2(&self, _ctx: SudoCtx, first: u32, second: u32) -> StdResult<Response> { Ok(Response::new()) }
+        fn a2bcd(&self, _ctx: SudoCtx, first: u32, second: u32) -> StdResult<Response> { Ok(Response::new()) }
         #[sv::msg(sudo)]
-        fn _a2bc(&self, _ctx: SudoCtx, first: u32, second: u32) -> StdResult<Response> { Ok(Response::new()) }
+        fn a_222(&self, _ctx: SudoCtx, first: u32, second: u32) -> StdResult<Response> { Ok(Response::new()) }
         #[sv::msg(sudo)]
-        fn _a_b2(&self, _ctx: SudoCtx, first: u32, second: u32) -> StdResult<Response> { Ok(Response::new()) }
+        fn a__b2(&self, _ctx: SudoCtx, first: u32, second: u32) -> StdResult<Response> { Ok(Response::new()) }
     }
 }
 
@@ -573,29 +573,29 @@ pub mod ti5 {
     pub trait Shapes5 {
         type Error: From<StdError>;
         #[sv::msg(exec)]
-        fn _a2_b(&self, ctx: ExecCtx, first: u32, second: u32) -> Result<Response, Self::Error>;
+        fn a2bc2(&self, ctx: ExecCtx, first: u32, second: u32) -> Result<Response, Self::Error>;
         #[sv::msg(exec)]
-        fn _a2b2(&self, ctx: ExecCtx, first: u32, second: u32) -> Result<Response, Self::Error>;
+        fn a2bcd(&self, ctx: ExecCtx, first: u32, second: u32) -> Result<Response, Self::Error>;
         #[sv::msg(exec)]
-        fn _a2bc(&self, ctx: ExecCtx, first: u32, second: u32) -> Result<Response, Self::Error>;
+        fn a_222(&self, ctx: ExecCtx, first: u32, second: u32) -> Result<Response, Self::Error>;
         #[sv::msg(exec)]
-        fn _a_b2(&self, ctx: ExecCtx, first: u32, second: u32) -> Result<Response, Self::Error>;
+        fn a__b2(&self, ctx: ExecCtx, first: u32, second: u32) -> Result<Response, Self::Error>;
         #[sv::msg(query)]
-        fn _2__2(&self, ctx: QueryCtx, first: u32, second: u32) -> Result<Resp, Self::Error>;
+        fn __a__(&self, ctx: QueryCtx, first: u32, second: u32) -> Result<Resp, Self::Error>;
         #[sv::msg(query)]
-        fn _2a__(&self, ctx: QueryCtx, first: u32, second: u32) -> Result<Resp, Self::Error>;
+        fn _a2_(&self, ctx: QueryCtx, first: u32, second: u32) -> Result<Resp, Self::Error>;
         #[sv::msg(query)]
-        fn __2_(&self, ctx: QueryCtx, first: u32, second: u32) -> Result<Resp, Self::Error>;
+        fn _a_b(&self, ctx: QueryCtx, first: u32, second: u32) -> Result<Resp, Self::Error>;
         #[sv::msg(query)]
-        fn __a_(&self, ctx: QueryCtx, first: u32, second: u32) -> Result<Resp, Self::Error>;
+        fn a22(&self, ctx: QueryCtx, first: u32, second: u32) -> Result<Resp, Self::Error>;
         #[sv::msg(sudo)]
-        fn __ab_(&self, ctx: SudoCtx, first: u32, second: u32) -> Result<Response, Self::Error>;
+        fn a2_2b(&self, ctx: SudoCtx, first: u32, second: u32) -> Result<Response, Self::Error>;
         #[sv::msg(sudo)]
-        fn _a2(&self, ctx: SudoCtx, first: u32, second: u32) -> Result<Response, Self::Error>;
+        fn a2__b(&self, ctx: SudoCtx, first: u32, second: u32) -> Result<Response, Self::Error>;
         #[sv::msg(sudo)]
-        fn _a22_(&self, ctx: SudoCtx, first: u32, second: u32) -> Result<Response, Self::Error>;
+        fn a2b2_(&self, ctx: SudoCtx, first: u32, second: u32) -> Result<Response, Self::Error>;
         #[sv::msg(sudo)]
-        fn _a22b(&self, ctx: SudoCtx, first: u32, second: u32) -> Result<Response, Self::Error>;
+        fn a2bc(&self, ctx: SudoCtx, first: u32, second: u32) -> Result<Response, Self::Error>;
     }
 }
 
@@ -605,18 +605,18 @@ pub mod tu5 {
 
     impl super::ti5::Shapes5 for Contract {
         type Error = StdError;
-        fn _a2_b(&self, _ctx: ExecCtx, first: u32, second: u32) -> StdResult<Response> { Ok(Response::new()) }
-        fn _a2b2(&self, _ctx: ExecCtx, first: u32, second: u32) -> StdResult<Response> { Ok(Response::new()) }
-        fn _a2bc(&self, _ctx: ExecCtx, first: u32, second: u32) -> StdResult<Response> { Ok(Response::new()) }
-        fn _a_b2(&self, _ctx: ExecCtx, first: u32, second: u32) -> StdResult<Response> { Ok(Response::new()) }
-        fn _2__2(&self, _ctx: QueryCtx, first: u32, second: u32) -> StdResult<Resp> { Ok(Resp {}) }
-        fn _2a__(&self, _ctx: QueryCtx, first: u32, second: u32) -> StdResult<Resp> { Ok(Resp {}) }
-        fn __2_(&self, _ctx: QueryCtx, first: u32, second: u32) -> StdResult<Resp> { Ok(Resp {}) }
-        fn __a_(&self, _ctx: QueryCtx, first: u32, second: u32) -> StdResult<Resp> { Ok(Resp {}) }
-        fn __ab_(&self, _ctx: SudoCtx, first: u32, second: u32) -> StdResult<Response> { Ok(Response::new()) }
-        fn _a2(&self, _ctx: SudoCtx, first: u32, second: u32) -> StdResult<Response> { Ok(Response::new()) }
-        fn _a22_(&self, _ctx: SudoCtx, first: u32, second: u32) -> StdResult<Response> { Ok(Response::new()) }
-        fn _a22b(&self, _ctx: SudoCtx, first: u32, second: u32) -> StdResult<Response> { Ok(Response::new()) }
+        fn a2bc2(&self, _ctx: ExecCtx, first: u32, second: u32) -> StdResult<Response> { Ok(Response::new()) }
+        fn a2bcd(&self, _ctx: ExecCtx, first: u32, second: u32) -> StdResult<Response> { Ok(Response::new()) }
+        fn a_222(&self, _ctx: ExecCtx, first: u32, second: u32) -> StdResult<Response> { Ok(Response::new()) }
+        fn a__b2(&self, _ctx: ExecCtx, first: u32, second: u32) -> StdResult<Response> { Ok(Response::new()) }
+        fn __a__(&self, _ctx: QueryCtx, first: u32, second: u32) -> StdResult<Resp> { Ok(Resp {}) }
+        fn _a2_(&self, _ctx: QueryCtx, first: u32, second: u32) -> StdResult<Resp> { Ok(Resp {}) }
+        fn _a_b(&self, _ctx: QueryCtx, first: u32, second: u32) -> StdResult<Resp> { Ok(Resp {}) }
+        fn a22(&self, _ctx: QueryCtx, first: u32, second: u32) -> StdResult<Resp> { Ok(Resp {}) }
+        fn a2_2b(&self, _ctx: SudoCtx, first: u32, second: u32) -> StdResult<Response> { Ok(Response::new()) }
+        fn a2__b(&self, _ctx: SudoCtx, first: u32, second: u32) -> StdResult<Response> { Ok(Response::new()) }
+        fn a2b2_(&self, _ctx: SudoCtx, first: u32, second: u32) -> StdResult<Response> { Ok(Response::new()) }
+        fn a2bc(&self, _ctx: SudoCtx, first: u32, second: u32) -> StdResult<Response> { Ok(Response::new()) }
     }
 
     #[entry_points]
@@ -644,29 +644,29 @@ pub mod tc6 {
         #[sv::msg(instantiate)]
         fn instantiate(&self, _ctx: InstantiateCtx) -> StdResult<Response> { Ok(Response::new()) }
         #[sv::msg(exec)]
-        fn __22(&self, _ctx: ExecCtx, first: u32, second: u32) -> StdResult<Response> { Ok(Response::new()) }
+        fn _a(&self, _ctx: ExecCtx, first: u32, second: u32) -> StdResult<Response> { Ok(Response::new()) }
         #[sv::msg(exec)]
-        fn __2__(&self, _ctx: ExecCtx, first: u32, second: u32) -> StdResult<Response> { Ok(Response::new()) }
+        fn _a2__(&self, _ctx: ExecCtx, first: u32, second: u32) -> StdResult<Response> { Ok(Response::new()) }
         #[sv::msg(exec)]
-        fn __2_a(&self, _ctx: ExecCtx, first: u32, second: u32) -> StdResult<Response> { Ok(Response::new()) }
+        fn _a_b_(&self, _ctx: ExecCtx, first: u32, second: u32) -> StdResult<Response> { Ok(Response::new()) }
         #[sv::msg(exec)]
-        fn __a__(&self, _ctx: ExecCtx, first: u32, second: u32) -> StdResult<Response> { Ok(Response::new()) }
+        fn a22_(&self, _ctx: ExecCtx, first: u32, second: u32) -> StdResult<Response> { Ok(Response::new()) }
         #[sv::msg(query)]
-        fn _a2_(&self, _ctx: QueryCtx, first: u32, second: u32) -> StdResult<Resp> { Ok(Resp {}) }
+        fn a2_b(&self, _ctx: QueryCtx, first: u32, second: u32) -> StdResult<Resp> { Ok(Resp {}) }
         #[sv::msg(query)]
-        fn _a2_2(&self, _ctx: QueryCtx, first: u32, second: u32) -> StdResult<Resp> { Ok(Resp {}) }
+        fn a2b_2(&self, _ctx: QueryCtx, first: u32, second: u32) -> StdResult<Resp> { Ok(Resp {}) }
         #[sv::msg(query)]
-        fn _a2b(&self, _ctx: QueryCtx, first: u32, second: u32) -> StdResult<Resp> { Ok(Resp {}) }
+        fn a2bc_(&self, _ctx: QueryCtx, first: u32, second: u32) -> StdResult<Resp> { Ok(Resp {}) }
         #[sv::msg(query)]
-        fn _a__b(&self, _ctx: QueryCtx, first: u32, second: u32) -> StdResult<Resp> { Ok(Resp {}) }
+        fn a_22b(&self, _ctx: QueryCtx, first: u32, second: u32) -> StdResult<Resp> { Ok(Resp {}) }
         #[sv::msg(sudo)]
-        fn _a_bc(&self, _ctx: SudoCtx, first: u32, second: u32) -> StdResult<Response> { Ok(Response::new()) }
+        fn a__bc(&self, _ctx: SudoCtx, first: u32, second: u32) -> StdResult<Response> { Ok(Response::new()) }
         #[sv::msg(sudo)]
-        fn _ab2(&self, _ctx: SudoCtx, first: u32, second: u32) -> StdResult<Response> { Ok(Response::new()) }
+        fn a_b2(&self, _ctx: SudoCtx, first: u32, second: u32) -> StdResult<Response> { Ok(Response::new()) }
         #[sv::msg(sudo)]
-        fn _ab22(&self, _ctx: SudoCtx, first: u32, second: u32) -> StdResult<Response> { Ok(Response::new()) }
+        fn a_b22(&self, _ctx: SudoCtx, first: u32, second: u32) -> StdResult<Response> { Ok(Response::new()) }
         #[sv::msg(sudo)]
-        fn _ab2c(&self, _ctx: SudoCtx, first: u32, second: u32) -> StdResult<Response> { Ok(Response::new()) }
+        fn a_b2c(&self, _ctx: SudoCtx, first: u32, second: u32) -> StdResult<Response> { Ok(Response::new()) }
     }
 }
 
@@ -677,29 +677,29 @@ pub mod ti6 {
     pub trait Shapes6 {
         type Error: From<StdError>;
         #[sv::msg(exec)]
-        fn _a_bc(&self, ctx: ExecCtx, first: u32, second: u32) -> Result<Response, Self::Error>;
+        fn a__bc(&self, ctx: ExecCtx, first: u32, second: u32) -> Result<Response, Self::Error>;
         #[sv::msg(exec)]
-        fn _ab2(&self, ctx: ExecCtx, first: u32, second: u32) -> Result<Response, Self::Error>;
+        fn a_b2(&self, ctx: ExecCtx, first: u32, second: u32) -> Result<Response, Self::Error>;
         #[sv::msg(exec)]
-        fn _ab22(&self, ctx: ExecCtx, first: u32, second: u32) -> Result<Response, Self::Error>;
+        fn a_b22(&self, ctx: ExecCtx, first: u32, second: u32) -> Result<Response, Self::Error>;
         #[sv::msg(exec)]
-        fn _ab2c(&self, ctx: ExecCtx, first: u32, second: u32) -> Result<Response, Self::Error>;
+        fn a_b2c(&self, ctx: ExecCtx, first: u32, second: u32) -> Result<Response, Self::Error>;
         #[sv::msg(query)]
-        fn __22(&self, ctx: QueryCtx, first: u32, second: u32) -> Result<Resp, Self::Error>;
+        fn _a(&self, ctx: QueryCtx, first: u32, second: u32) -> Result<Resp, Self::Error>;
         #[sv::msg(query)]
-        fn __2__(&self, ctx: QueryCtx, first: u32, second: u32) -> Result<Resp, Self::Error>;
+        fn _a2__(&self, ctx: QueryCtx, first: u32, second: u32) -> Result<Resp, Self::Error>;
         #[sv::msg(query)]
-        fn __2_a(&self, ctx: QueryCtx, first: u32, second: u32) -> Result<Resp, Self::Error>;
+        fn _a_b_(&self, ctx: QueryCtx, first: u32, second: u32) -> Result<Resp, Self::Error>;
         #[sv::msg(query)]
-        fn __a__(&self, ctx: QueryCtx, first: u32, second: u32) -> Result<Resp, Self::Error>;
+        fn a22_(&self, ctx: QueryCtx, first: u32, second: u32) -> Result<Resp, Self::Error>;
         #[sv::msg(sudo)]
-        fn _a2_(&self, ctx: SudoCtx, first: u32, second: u32) -> Result<Response, Self::Error>;
+        fn a2_b(&self, ctx: SudoCtx, first: u32, second: u32) -> Result<Response, Self::Error>;
         #[sv::msg(sudo)]
-        fn _a2_2(&self, ctx: SudoCtx, first: u32, second: u32) -> Result<Response, Self::Error>;
+        fn a2b_2(&self, ctx: SudoCtx, first: u32, second: u32) -> Result<Response, Self::Error>;
         #[sv::msg(sudo)]
-        fn _a2b(&self, ctx: SudoCtx, first: u32, second: u32) -> Result<Response, Self::Error>;
+        fn a2bc_(&self, ctx: SudoCtx, first: u32, second: u32) -> Result<Response, Self::Error>;
         #[sv::msg(sudo)]
-        fn _a__b(&self, ctx: SudoCtx, first: u32, second: u32) -> Result<Response, Self::Error>;
+        fn a_22b(&self, ctx: SudoCtx, first: u32, second: u32) -> Result<Response, Self::Error>;
     }
 }
 
@@ -709,18 +709,18 @@ pub mod tu6 {
 
     impl super::ti6::Shapes6 for Contract {
         type Error = StdError;
-        fn _a_bc(&self, _ctx: ExecCtx, first: u32, second: u32) -> StdResult<Response> { Ok(Response::new()) }
-        fn _ab2(&self, _ctx: ExecCtx, first: u32, second: u32) -> StdResult<Response> { Ok(Response::new()) }
-        fn _ab22(&self, _ctx: ExecCtx, first: u32, second: u32) -> StdResult<Response> { Ok(Response::new()) }
-        fn _ab2c(&self, _ctx: ExecCtx, first: u32, second: u32) -> StdResult<Response> { Ok(Response::new()) }
-        fn __22(&self, _ctx: QueryCtx, first: u32, second: u32) -> StdResult<Resp> { Ok(Resp {}) }
-        fn __2__(&self, _ctx: QueryCtx, first: u32, second: u32) -> StdResult<Resp> { Ok(Resp {}) }
-        fn __2_a(&self, _ctx: QueryCtx, first: u32, second: u32) -> StdResult<Resp> { Ok(Resp {}) }
-        fn __a__(&self, _ctx: QueryCtx, first: u32, second: u32) -> StdResult<Resp> { Ok(Resp {}) }
-        fn _a2_(&self, _ctx: SudoCtx, first: u32, second: u32) -> StdResult<Response> { Ok(Response::new()) }
-        fn _a2_2(&self, _ctx: SudoCtx, first: u32, second: u32) -> StdResult<Response> { Ok(Response::new()) }
-        fn _a2b(&self, _ctx: SudoCtx, first: u32, second: u32) -> StdResult<Response> { Ok(Response::new()) }
-        fn _a__b(&self, _ctx: SudoCtx, first: u32, second: u32) -> StdResult<Response> { Ok(Response::new()) }
+        fn a__bc(&self, _ctx: ExecCtx, first: u32, second: u32) -> StdResult<Response> { Ok(Response::new()) }
+        fn a_b2(&self, _ctx: ExecCtx, first: u32, second: u32) -> StdResult<Response> { Ok(Response::new()) }
+        fn a_b22(&self, _ctx: ExecCtx, first: u32, second: u32) -> StdResult<Response> { Ok(Response::new()) }
+        fn a_b2c(&self, _ctx: ExecCtx, first: u32, second: u32) -> StdResult<Response> { Ok(Response::new()) }
+        fn _a(&self, _ctx: QueryCtx, first: u32, second: u32) -> StdResult<Resp> { Ok(Resp {}) }
+        fn _a2__(&self, _ctx: QueryCtx, first: u32, second: u32) -> StdResult<Resp> { Ok(Resp {}) }
+        fn _a_b_(&self, _ctx: QueryCtx, first: u32, second: u32) -> StdResult<Resp> { Ok(Resp {}) }
+        fn a22_(&self, _ctx: QueryCtx, first: u32, second: u32) -> StdResult<Resp> { Ok(Resp {}) }
+        fn a2_b(&self, _ctx: SudoCtx, first: u32, second: u32) -> StdResult<Response> { Ok(Response::new()) }
+        fn a2b_2(&self, _ctx: SudoCtx, first: u32, second: u32) -> StdResult<Response> { Ok(Response::new()) }
+        fn a2bc_(&self, _ctx: SudoCtx, first: u32, second: u32) -> StdResult<Response> { Ok(Response::new()) }
+        fn a_22b(&self, _ctx: SudoCtx, first: u32, second: u32) -> StdResult<Response> { Ok(Response::new()) }
     }
 
     #[entry_points]
@@ -748,29 +748,29 @@ pub mod tc7 {
         #[sv::msg(instantiate)]
         fn instantiate(&self, _ctx: InstantiateCtx) -> StdResult<Response> { Ok(Response::new()) }
         #[sv::msg(exec)]
-        fn __22_(&self, _ctx: ExecCtx, first: u32, second: u32) -> StdResult<Response> { Ok(Response::new()) }
+        fn _a_(&self, _ctx: ExecCtx, first: u32, second: u32) -> StdResult<Response> { Ok(Response::new()) }
         #[sv::msg(exec)]
-        fn __2a(&self, _ctx: ExecCtx, first: u32, second: u32) -> StdResult<Response> { Ok(Response::new()) }
+        fn _a_2(&self, _ctx: ExecCtx, first: u32, second: u32) -> StdResult<Response> { Ok(Response::new()) }
         #[sv::msg(exec)]
-        fn ___2(&self, _ctx: ExecCtx, first: u32, second: u32) -> StdResult<Response> { Ok(Response::new()) }
+        fn _ab(&self, _ctx: ExecCtx, first: u32, second: u32) -> StdResult<Response> { Ok(Response::new()) }
         #[sv::msg(exec)]
-        fn _a(&self, _ctx: ExecCtx, first: u32, second: u32) -> StdResult<Response> { Ok(Response::new()) }
+        fn a22__(&self, _ctx: ExecCtx, first: u32, second: u32) -> StdResult<Response> { Ok(Response::new()) }
         #[sv::msg(query)]
-        fn _a2__(&self, _ctx: QueryCtx, first: u32, second: u32) -> StdResult<Resp> { Ok(Resp {}) }
+        fn a2_b_(&self, _ctx: QueryCtx, first: u32, second: u32) -> StdResult<Resp> { Ok(Resp {}) }
         #[sv::msg(query)]
-        fn _a2b_(&self, _ctx: QueryCtx, first: u32, second: u32) -> StdResult<Resp> { Ok(Resp {}) }
+        fn a_2b2(&self, _ctx: QueryCtx, first: u32, second: u32) -> StdResult<Resp> { Ok(Resp {}) }
         #[sv::msg(query)]
-        fn _a_22(&self, _ctx: QueryCtx, first: u32, second: u32) -> StdResult<Resp> { Ok(Resp {}) }
+        fn a_2bc(&self, _ctx: QueryCtx, first: u32, second: u32) -> StdResult<Resp> { Ok(Resp {}) }
         #[sv::msg(query)]
-        fn _a_b(&self, _ctx: QueryCtx, first: u32, second: u32) -> StdResult<Resp> { Ok(Resp {}) }
+        fn a_b2_(&self, _ctx: QueryCtx, first: u32, second: u32) -> StdResult<Resp> { Ok(Resp {}) }
         #[sv::msg(sudo)]
-        fn _ab2_(&self, _ctx: SudoCtx, first: u32, second: u32) -> StdResult<Response> { Ok(Response::new()) }
+        fn a_b_c(&self, _ctx: SudoCtx, first: u32, second: u32) -> StdResult<Response> { Ok(Response::new()) }
         #[sv::msg(sudo)]
-        fn _ab_c(&self, _ctx: SudoCtx, first: u32, second: u32) -> StdResult<Response> { Ok(Response::new()) }
+        fn a_bc2(&self, _ctx: SudoCtx, first: u32, second: u32) -> StdResult<Response> { Ok(Response::new()) }
         #[sv::msg(sudo)]
-        fn _abc2(&self, _ctx: SudoCtx, first: u32, second: u32) -> StdResult<Response> { Ok(Response::new()) }
+        fn a_bcd(&self, _ctx: SudoCtx, first: u32, second: u32) -> StdResult<Response> { Ok(Response::new()) }
         #[sv::msg(sudo)]
-        fn _abcd(&self, _ctx: SudoCtx, first: u32, second: u32) -> StdResult<Response> { Ok(Response::new()) }
+        fn ab22(&self, _ctx: SudoCtx, first: u32, second: u32) -> StdResult<Response> { Ok(Response::new()) }
     }
 }
 
@@ -781,29 +781,29 @@ pub mod ti7 {
     pub trait Shapes7 {
         type Error: From<StdError>;
         #[sv::msg(exec)]
-        fn _ab2_(&self, ctx: ExecCtx, first: u32, second: u32) -> Result<Response, Self::Error>;
+        fn a_b_c(&self, ctx: ExecCtx, first: u32, second: u32) -> Result<Response, Self::Error>;
         #[sv::msg(exec)]
-        fn _ab_c(&self, ctx: ExecCtx, first: u32, second: u32) -> Result<Response, Self::Error>;
+        fn a_bc2(&self, ctx: ExecCtx, first: u32, second: u32) -> Result<Response, Self::Error>;
         #[sv::msg(exec)]
-        fn _abc2(&self, ctx: ExecCtx, first: u32, second: u32) -> Result<Response, Self::Error>;
+        fn a_bcd(&self, ctx: ExecCtx, first: u32, second: u32) -> Result<Response, Self::Error>;
         #[sv::msg(exec)]
-        fn _abcd(&self, ctx: ExecCtx, first: u32, second: u32) -> Result<Response, Self::Error>;
+        fn ab22(&self, ctx: ExecCtx, first: u32, second: u32) -> Result<Response, Self::Error>;
         #[sv::msg(query)]
-        fn __22_(&self, ctx: QueryCtx, first: u32, second: u32) -> Result<Resp, Self::Error>;
+        fn _a_(&self, ctx: QueryCtx, first: u32, second: u32) -> Result<Resp, Self::Error>;
         #[sv::msg(query)]
-        fn __2a(&self, ctx: QueryCtx, first: u32, second: u32) -> Result<Resp, Self::Error>;
+        fn _a_2(&self, ctx: QueryCtx, first: u32, second: u32) -> Result<Resp, Self::Error>;
         #[sv::msg(query)]
-        fn ___2(&self, ctx: QueryCtx, first: u32, second: u32) -> Result<Resp, Self::Error>;
+        fn _ab(&self, ctx: QueryCtx, first: u32, second: u32) -> Result<Resp, Self::Error>;
         #[sv::msg(query)]
-        fn _a(&self, ctx: QueryCtx, first: u32, second: u32) -> Result<Resp, Self::Error>;
+        fn a22__(&self, ctx: QueryCtx, first: u32, second: u32) -> Result<Resp, Self::Error>;
         #[sv::msg(sudo)]
-        fn _a2__(&self, ctx: SudoCtx, first: u32, second: u32) -> Result<Response, Self::Error>;
+        fn a2_b_(&self, ctx: SudoCtx, first: u32, second: u32) -> Result<Response, Self::Error>;
         #[sv::msg(sudo)]
-        fn _a2b_(&self, ctx: SudoCtx, first: u32, second: u32) -> Result<Response, Self::Error>;
+        fn a_2b2(&self, ctx: SudoCtx, first: u32, second: u32) -> Result<Response, Self::Error>;
         #[sv::msg(sudo)]
-        fn _a_22(&self, ctx: SudoCtx, first: u32, second: u32) -> Result<Response, Self::Error>;
+        fn a_2bc(&self, ctx: SudoCtx, first: u32, second: u32) -> Result<Response, Self::Error>;
         #[sv::msg(sudo)]
-        fn _a_b(&self, ctx: SudoCtx, first: u32, second: u32) -> Result<Response, Self::Error>;
+        fn a_b2_(&self, ctx: SudoCtx, first: u32, second: u32) -> Result<Response, Self::Error>;
     }
 }
 
@@ -813,18 +813,18 @@ pub mod tu7 {
 
     impl super::ti7::Shapes7 for Contract {
         type Error = StdError;
-        fn _ab2_(&self, _ctx: ExecCtx, first: u32, second: u32) -> StdResult<Response> { Ok(Response::new()) }
-        fn _ab_c(&self, _ctx: ExecCtx, first: u32, second: u32) -> StdResult<Response> { Ok(Response::new()) }
-        fn _abc2(&self, _ctx: ExecCtx, first: u32, second: u32) -> StdResult<Response> { Ok(Response::new()) }
-        fn _abcd(&self, _ctx: ExecCtx, first: u32, second: u32) -> StdResult<Response> { Ok(Response::new()) }
-        fn __22_(&self, _ctx: QueryCtx, first: u32, second: u32) -> StdResult<Resp> { Ok(Resp {}) }
-        fn __2a(&self, _ctx: QueryCtx, first: u32, second: u32) -> StdResult<Resp> { Ok(Resp {}) }
-        fn ___2(&self, _ctx: QueryCtx, first: u32, second: u32) -> StdResult<Resp> { Ok(Resp {}) }
-        fn _a(&self, _ctx: QueryCtx, first: u32, second: u32) -> StdResult<Resp> { Ok(Resp {}) }
-        fn _a2__(&self, _ctx: SudoCtx, first: u32, second: u32) -> StdResult<Response> { Ok(Response::new()) }
-        fn _a2b_(&self, _ctx: SudoCtx, first: u32, second: u32) -> StdResult<Response> { Ok(Response::new()) }
-        fn _a_22(&self, _ctx: SudoCtx, first: u32, second: u32) -> StdResult<Response> { Ok(Response::new()) }
-        fn _a_b(&self, _ctx: SudoCtx, first: u32, second: u32) -> StdResult<Response> { Ok(Response::new()) }
+        fn a_b_c(&self, _ctx: ExecCtx, first: u32, second: u32) -> StdResult<Response> { Ok(Response::new()) }
+        fn a_bc2(&self, _ctx: ExecCtx, first: u32, second: u32) -> StdResult<Response> { Ok(Response::new()) }
+        fn a_bcd(&self, _ctx: ExecCtx, first: u32, second: u32) -> StdResult<Response> { Ok(Response::new()) }
+        fn ab22(&self, _ctx: ExecCtx, first: u32, second: u32) -> StdResult<Response> { Ok(Response::new()) }
+        fn _a_(&self, _ctx: QueryCtx, first: u32, second: u32) -> StdResult<Resp> { Ok(Resp {}) }
+        fn _a_2(&self, _ctx: QueryCtx, first: u32, second: u32) -> StdResult<Resp> { Ok(Resp {}) }
+        fn _ab(&self, _ctx: QueryCtx, first: u32, second: u32) -> StdResult<Resp> { Ok(Resp {}) }
+        fn a22__(&self, _ctx: QueryCtx, first: u32, second: u32) -> StdResult<Resp> { Ok(Resp {}) }
+        fn a2_b_(&self, _ctx: SudoCtx, first: u32, second: u32) -> StdResult<Response> { Ok(Response::new()) }
+        fn a_2b2(&self, _ctx: SudoCtx, first: u32, second: u32) -> StdResult<Response> { Ok(Response::new()) }
+        fn a_2bc(&self, _ctx: SudoCtx, first: u32, second: u32) -> StdResult<Response> { Ok(Response::new()) }
+        fn a_b2_(&self, _ctx: SudoCtx, first: u32, second: u32) -> StdResult<Response> { Ok(Response::new()) }
     }
 
     #[entry_points]
@@ -852,29 +852,29 @@ pub mod tc8 {
         #[sv::msg(instantiate)]
         fn instantiate(&self, _ctx: InstantiateCtx) -> StdResult<Response> { Ok(Response::new()) }
         #[sv::msg(exec)]
-        fn __2_2(&self, _ctx: ExecCtx, first: u32, second: u32) -> StdResult<Response> { Ok(Response::new()) }
+        fn _a_2_(&self, _ctx: ExecCtx, first: u32, second: u32) -> StdResult<Response> { Ok(Response::new()) }
         #[sv::msg(exec)]
-        fn __2a_(&self, _ctx: ExecCtx, first: u32, second: u32) -> StdResult<Response> { Ok(Response::new()) }
+        fn _a__(&self, _ctx: ExecCtx, first: u32, second: u32) -> StdResult<Response> { Ok(Response::new()) }
         #[sv::msg(exec)]
-        fn ___2_(&self, _ctx: ExecCtx, first: u32, second: u32) -> StdResult<Response> { Ok(Response::new()) }
+        fn _ab_(&self, _ctx: ExecCtx, first: u32, second: u32) -> StdResult<Response> { Ok(Response::new()) }
         #[sv::msg(exec)]
-        fn _a_(&self, _ctx: ExecCtx, first: u32, second: u32) -> StdResult<Response> { Ok(Response::new()) }
+        fn a2_2(&self, _ctx: ExecCtx, first: u32, second: u32) -> StdResult<Response> { Ok(Response::new()) }
         #[sv::msg(query)]
-        fn _a_2(&self, _ctx: QueryCtx, first: u32, second: u32) -> StdResult<Resp> { Ok(Resp {}) }
+        fn a2b(&self, _ctx: QueryCtx, first: u32, second: u32) -> StdResult<Resp> { Ok(Resp {}) }
         #[sv::msg(query)]
-        fn _a_2b(&self, _ctx: QueryCtx, first: u32, second: u32) -> StdResult<Resp> { Ok(Resp {}) }
+        fn a_b_2(&self, _ctx: QueryCtx, first: u32, second: u32) -> StdResult<Resp> { Ok(Resp {}) }
         #[sv::msg(query)]
-        fn _a_b_(&self, _ctx: QueryCtx, first: u32, second: u32) -> StdResult<Resp> { Ok(Resp {}) }
+        fn a_bc(&self, _ctx: QueryCtx, first: u32, second: u32) -> StdResult<Resp> { Ok(Resp {}) }
         #[sv::msg(query)]
-        fn _ab_2(&self, _ctx: QueryCtx, first: u32, second: u32) -> StdResult<Resp> { Ok(Resp {}) }
+        fn ab222(&self, _ctx: QueryCtx, first: u32, second: u32) -> StdResult<Resp> { Ok(Resp {}) }
         #[sv::msg(sudo)]
-        fn _abc(&self, _ctx: SudoCtx, first: u32, second: u32) -> StdResult<Response> { Ok(Response::new()) }
+        fn ab22_(&self, _ctx: SudoCtx, first: u32, second: u32) -> StdResult<Response> { Ok(Response::new()) }
         #[sv::msg(sudo)]
-        fn a22(&self, _ctx: SudoCtx, first: u32, second: u32) -> StdResult<Response> { Ok(Response::new()) }
+        fn ab22c(&self, _ctx: SudoCtx, first: u32, second: u32) -> StdResult<Response> { Ok(Response::new()) }
         #[sv::msg(sudo)]
-        fn a222(&self, _ctx: SudoCtx, first: u32, second: u32) -> StdResult<Response> { Ok(Response::new()) }
+        fn ab2_c(&self, _ctx: SudoCtx, first: u32, second: u32) -> StdResult<Response> { Ok(Response::new()) }
         #[sv::msg(sudo)]
-        fn a2222(&self, _ctx: SudoCtx, first: u32, second: u32) -> StdResult<Response> { Ok(Response::new()) }
+        fn ab2c2(&self, _ctx: SudoCtx, first: u32, second: u32) -> StdResult<Response> { Ok(Response::new()) }
     }
 }
 
@@ -885,29 +885,29 @@ pub mod ti8 {
     pub trait Shapes8 {
         type Error: From<StdError>;
         #[sv::msg(exec)]
-        fn _abc(&self, ctx: ExecCtx, first: u32, second: u32) -> Result<Response, Self::Error>;
+        fn ab22_(&self, ctx: ExecCtx, first: u32, second: u32) -> Result<Response, Self::Error>;
         #[sv::msg(exec)]
-        fn a22(&self, ctx: ExecCtx, first: u32, second: u32) -> Result<Response, Self::Error>;
+        fn ab22c(&self, ctx: ExecCtx, first: u32, second: u32) -> Result<Response, Self::Error>;
         #[sv::msg(exec)]
-        fn a222(&self, ctx: ExecCtx, first: u32, second: u32) -> Result<Response, Self::Error>;
+        fn ab2_c(&self, ctx: ExecCtx, first: u32, second: u32) -> Result<Response, Self::Error>;
         #[sv::msg(exec)]
-        fn a2222(&self, ctx: ExecCtx, first: u32, second: u32) -> Result<Response, Self::Error>;
+        fn ab2c2(&self, ctx: ExecCtx, first: u32, second: u32) -> Result<Response, Self::Error>;
         #[sv::msg(query)]
-        fn __2_2(&self, ctx: QueryCtx, first: u32, second: u32) -> Result<Resp, Self::Error>;
+        fn _a_2_(&self, ctx: QueryCtx, first: u32, second: u32) -> Result<Resp, Self::Error>;
         #[sv::msg(query)]
-        fn __2a_(&self, ctx: QueryCtx, first: u32, second: u32) -> Result<Resp, Self::Error>;
+        fn _a__(&self, ctx: QueryCtx, first: u32, second: u32) -> Result<Resp, Self::Error>;
         #[sv::msg(query)]
-        fn ___2_(&self, ctx: QueryCtx, first: u32, second: u32) -> Result<Resp, Self::Error>;
+        fn _ab_(&self, ctx: QueryCtx, first: u32, second: u32) -> Result<Resp, Self::Error>;
         #[sv::msg(query)]
-        fn _a_(&self, ctx: QueryCtx, first: u32, second: u32) -> Result<Resp, Self::Error>;
+        fn a2_2(&self, ctx: QueryCtx, first: u32, second: u32) -> Result<Resp, Self::Error>;
         #[sv::msg(sudo)]
-        fn _a_2(&self, ctx: SudoCtx, first: u32, second: u32) -> Result<Response, Self::Error>;
+        fn a2b(&self, ctx: SudoCtx, first: u32, second: u32) -> Result<Response, Self::Error>;
         #[sv::msg(sudo)]
-        fn _a_2b(&self, ctx: SudoCtx, first: u32, second: u32) -> Result<Response, Self::Error>;
+        fn a_b_2(&self, ctx: SudoCtx, first: u32, second: u32) -> Result<Response, Self::Error>;
         #[sv::msg(sudo)]
-        fn _a_b_(&self, ctx: SudoCtx, first: u32, second: u32) -> Result<Response, Self::Error>;
+        fn a_bc(&self, ctx: SudoCtx, first: u32, second: u32) -> Result<Response, Self::Error>;
         #[sv::msg(sudo)]
-        fn _ab_2(&self, ctx: SudoCtx, first: u32, second: u32) -> Result<Response, Self::Error>;
+        fn ab222(&self, ctx: SudoCtx, first: u32, second: u32) -> Result<Response, Self::Error>;
     }
 }
 
@@ -917,18 +917,18 @@ pub mod tu8 {
 
     impl super::ti8::Shapes8 for Contract {
         type Error = StdError;
-        fn _abc(&self, _ctx: ExecCtx, first: u32, second: u32) -> StdResult<Response> { Ok(Response::new()) }
-        fn a22(&self, _ctx: ExecCtx, first: u32, second: u32) -> StdResult<Response> { Ok(Response::new()) }
-        fn a222(&self, _ctx: ExecCtx, first: u32, second: u32) -> StdResult<Response> { Ok(Response::new()) }
-        fn a2222(&self, _ctx: ExecCtx, first: u32, second: u32) -> StdResult<Response> { Ok(Response::new()) }
-        fn __2_2(&self, _ctx: QueryCtx, first: u32, second: u32) -> StdResult<Resp> { Ok(Resp {}) }
-        fn __2a_(&self, _ctx: QueryCtx, first: u32, second: u32) -> StdResult<Resp> { Ok(Resp {}) }
-        fn ___2_(&self, _ctx: QueryCtx, first: u32, second: u32) -> StdResult<Resp> { Ok(Resp {}) }
-        fn _a_(&self, _ctx: QueryCtx, first: u32, second: u32) -> StdResult<Resp> { Ok(Resp {}) }
-        fn _a_2(&self, _ctx: SudoCtx, first: u32, second: u32) -> StdResult<Response> { Ok(Response::new()) }
-        fn _a_2b(&self, _ctx: SudoCtx, first: u32, second: u32) -> StdResult<Response> { Ok(Response::new()) }
-        fn _a_b_(&self, _ctx: SudoCtx, first: u32, second: u32) -> StdResult<Response> { Ok(Response::new()) }
-        fn _ab_2(&self, _ctx: SudoCtx, first: u32, second: u32) -> StdResult<Response> { Ok(Response::new()) }
+        fn ab22_(&self, _ctx: ExecCtx, first: u32, second: u32) -> StdResult<Response> { Ok(Response::new()) }
+        fn ab22c(&self, _ctx: ExecCtx, first: u32, second: u32) -> StdResult<Response> { Ok(Response::new()) }
+        fn ab2_c(&self, _ctx: ExecCtx, first: u32, second: u32) -> StdResult<Response> { Ok(Response::new()) }
+        fn ab2c2(&self, _ctx: ExecCtx, first: u32, second: u32) -> StdResult<Response> { Ok(Response::new()) }
+        fn _a_2_(&self, _ctx: QueryCtx, first: u32, second: u32) -> StdResult<Resp> { Ok(Resp {}) }
+        fn _a__(&self, _ctx: QueryCtx, first: u32, second: u32) -> StdResult<Resp> { Ok(Resp {}) }
+        fn _ab_(&self, _ctx: QueryCtx, first: u32, second: u32) -> StdResult<Resp> { Ok(Resp {}) }
+        fn a2_2(&self, _ctx: QueryCtx, first: u32, second: u32) -> StdResult<Resp> { Ok(Resp {}) }
+        fn a2b(&self, _ctx: SudoCtx, first: u32, second: u32) -> StdResult<Response> { Ok(Response::new()) }
+        fn a_b_2(&self, _ctx: SudoCtx, first: u32, second: u32) -> StdResult<Response> { Ok(Response::new()) }
+        fn a_bc(&self, _ctx: SudoCtx, first: u32, second: u32) -> StdResult<Response> { Ok(Response::new()) }
+        fn ab222(&self, _ctx: SudoCtx, first: u32, second: u32) -> StdResult<Response> { Ok(Response::new()) }
     }
 
     #[entry_points]
@@ -956,29 +956,29 @@ pub mod tc9 {
         #[sv::msg(instantiate)]
         fn instantiate(&self, _ctx: InstantiateCtx) -> StdResult<Response> { Ok(Response::new()) }
         #[sv::msg(exec)]
-        fn ___22(&self, _ctx: ExecCtx, first: u32, second: u32) -> StdResult<Response> { Ok(Response::new()) }
+        fn _a__2(&self, _ctx: ExecCtx, first: u32, second: u32) -> StdResult<Response> { Ok(Response::new()) }
         #[sv::msg(exec)]
-        fn ___2a(&self, _ctx: ExecCtx, first: u32, second: u32) -> StdResult<Response> { Ok(Response::new()) }
+        fn _a___(&self, _ctx: ExecCtx, first: u32, second: u32) -> StdResult<Response> { Ok(Response::new()) }
         #[sv::msg(exec)]
-        fn ____2(&self, _ctx: ExecCtx, first: u32, second: u32) -> StdResult<Response> { Ok(Response::new()) }
+        fn _ab__(&self, _ctx: ExecCtx, first: u32, second: u32) -> StdResult<Response> { Ok(Response::new()) }
         #[sv::msg(exec)]
-        fn _a_2_(&self, _ctx: ExecCtx, first: u32, second: u32) -> StdResult<Response> { Ok(Response::new()) }
+        fn a2_2_(&self, _ctx: ExecCtx, first: u32, second: u32) -> StdResult<Response> { Ok(Response::new()) }
         #[sv::msg(query)]
-        fn _a__(&self, _ctx: QueryCtx, first: u32, second: u32) -> StdResult<Resp> { Ok(Resp {}) }
+        fn a2b_(&self, _ctx: QueryCtx, first: u32, second: u32) -> StdResult<Resp> { Ok(Resp {}) }
         #[sv::msg(query)]
-        fn _ab(&self, _ctx: QueryCtx, first: u32, second: u32) -> StdResult<Resp> { Ok(Resp {}) }
+        fn a_bc_(&self, _ctx: QueryCtx, first: u32, second: u32) -> StdResult<Resp> { Ok(Resp {}) }
         #[sv::msg(query)]
-        fn _abc_(&self, _ctx: QueryCtx, first: u32, second: u32) -> StdResult<Resp> { Ok(Resp {}) }
+        fn ab2(&self, _ctx: QueryCtx, first: u32, second: u32) -> StdResult<Resp> { Ok(Resp {}) }
         #[sv::msg(query)]
-        fn a222_(&self, _ctx: QueryCtx, first: u32, second: u32) -> StdResult<Resp> { Ok(Resp {}) }
+        fn ab2_2(&self, _ctx: QueryCtx, first: u32, second: u32) -> StdResult<Resp> { Ok(Resp {}) }
         #[sv::msg(sudo)]
-        fn a222b(&self, _ctx: SudoCtx, first: u32, second: u32) -> StdResult<Response> { Ok(Response::new()) }
+        fn ab2c(&self, _ctx: SudoCtx, first: u32, second: u32) -> StdResult<Response> { Ok(Response::new()) }
         #[sv::msg(sudo)]
-        fn a22_(&self, _ctx: SudoCtx, first: u32, second: u32) -> StdResult<Response> { Ok(Response::new()) }
+        fn ab2cd(&self, _ctx: SudoCtx, first: u32, second: u32) -> StdResult<Response> { Ok(Response::new()) }
         #[sv::msg(sudo)]
-        fn a22_b(&self, _ctx: SudoCtx, first: u32, second: u32) -> StdResult<Response> { Ok(Response::new()) }
+        fn ab_c2(&self, _ctx: SudoCtx, first: u32, second: u32) -> StdResult<Response> { Ok(Response::new()) }
         #[sv::msg(sudo)]
-        fn a22b2(&self, _ctx: SudoCtx, first: u32, second: u32) -> StdResult<Response> { Ok(Response::new()) }
+        fn ab_cd(&self, _ctx: SudoCtx, first: u32, second: u32) -> StdResult<Response> { Ok(Response::new()) }
     }
 }
 
@@ -989,29 +989,29 @@ pub mod ti9 {
     pub trait Shapes9 {
         type Error: From<StdError>;
         #[sv::msg(exec)]
-        fn a222b(&self, ctx: ExecCtx, first: u32, second: u32) -> Result<Response, Self::Error>;
+        fn ab2c(&self, ctx: ExecCtx, first: u32, second: u32) -> Result<Response, Self::Error>;
         #[sv::msg(exec)]
-        fn a22_(&self, ctx: ExecCtx, first: u32, second: u32) -> Result<Response, Self::Error>;
+        fn ab2cd(&self, ctx: ExecCtx, first: u32, second: u32) -> Result<Response, Self::Error>;
         #[sv::msg(exec)]
-        fn a22_b(&self, ctx: ExecCtx, first: u32, second: u32) -> Result<Response, Self::Error>;
+        fn ab_c2(&self, ctx: ExecCtx, first: u32, second: u32) -> Result<Response, Self::Error>;
         #[sv::msg(exec)]
-        fn a22b2(&self, ctx: ExecCtx, first: u32, second: u32) -> Result<Response, Self::Error>;
+        fn ab_cd(&self, ctx: ExecCtx, first: u32, second: u32) -> Result<Response, Self::Error>;
         #[sv::msg(query)]
-        fn ___22(&self, ctx: QueryCtx, first: u32, second: u32) -> Result<Resp, Self::Error>;
+        fn _a__2(&self, ctx: QueryCtx, first: u32, second: u32) -> Result<Resp, Self::Error>;
         #[sv::msg(query)]
-        fn ___2a(&self, ctx: QueryCtx, first: u32, second: u32) -> Result<Resp, Self::Error>;
+        fn _a___(&self, ctx: QueryCtx, first: u32, second: u32) -> Result<Resp, Self::Error>;
         #[sv::msg(query)]
-        fn ____2(&self, ctx: QueryCtx, first: u32, second: u32) -> Result<Resp, Self::Error>;
+        fn _ab__(&self, ctx: QueryCtx, first: u32, second: u32) -> Result<Resp, Self::Error>;
         #[sv::msg(query)]
-        fn _a_2_(&self, ctx: QueryCtx, first: u32, second: u32) -> Result<Resp, Self::Error>;
+        fn a2_2_(&self, ctx: QueryCtx, first: u32, second: u32) -> Result<Resp, Self::Error>;
         #[sv::msg(sudo)]
-        fn _a__(&self, ctx: SudoCtx, first: u32, second: u32) -> Result<Response, Self::Error>;
+        fn a2b_(&self, ctx: SudoCtx, first: u32, second: u32) -> Result<Response, Self::Error>;
         #[sv::msg(sudo)]
-        fn _ab(&self, ctx: SudoCtx, first: u32, second: u32) -> Result<Response, Self::Error>;
+        fn a_bc_(&self, ctx: SudoCtx, first: u32, second: u32) -> Result<Response, Self::Error>;
         #[sv::msg(sudo)]
-        fn _abc_(&self, ctx: SudoCtx, first: u32, second: u32) -> Result<Response, Self::Error>;
+        fn ab2(&self, ctx: SudoCtx, first: u32, second: u32) -> Result<Response, Self::Error>;
         #[sv::msg(sudo)]
-        fn a222_(&self, ctx: SudoCtx, first: u32, second: u32) -> Result<Response, Self::Error>;
+        fn ab2_2(&self, ctx: SudoCtx, first: u32, second: u32) -> Result<Response, Self::Error>;
     }
 }
 
@@ -1021,18 +1021,18 @@ pub mod tu9 {
 
     impl super::ti9::Shapes9 for Contract {
         type Error = StdError;
-        fn a222b(&self, _ctx: ExecCtx, first: u32, second: u32) -> StdResult<Response> { Ok(Response::new()) }
-        fn a22_(&self, _ctx: ExecCtx, first: u32, second: u32) -> StdResult<Response> { Ok(Response::new()) }
-        fn a22_b(&self, _ctx: ExecCtx, first: u32, second: u32) -> StdResult<Response> { Ok(Response::new()) }
-        fn a22b2(&self, _ctx: ExecCtx, first: u32, second: u32) -> StdResult<Response> { Ok(Response::new()) }
-        fn ___22(&self, _ctx: QueryCtx, first: u32, second: u32) -> StdResult<Resp> { Ok(Resp {}) }
-        fn ___2a(&self, _ctx: QueryCtx, first: u32, second: u32) -> StdResult<Resp> { Ok(Resp {}) }
-        fn ____2(&self, _ctx: QueryCtx, first: u32, second: u32) -> StdResult<Resp> { Ok(Resp {}) }
-        fn _a_2_(&self, _ctx: QueryCtx, first: u32, second: u32) -> StdResult<Resp> { Ok(Resp {}) }
-        fn _a__(&self, _ctx: SudoCtx, first: u32, second: u32) -> StdResult<Response> { Ok(Response::new()) }
-        fn _ab(&self, _ctx: SudoCtx, first: u32, second: u32) -> StdResult<Response> { Ok(Response::new()) }
-        fn _abc_(&self, _ctx: SudoCtx, first: u32, second: u32) -> StdResult<Response> { Ok(Response::new()) }
-        fn a222_(&self, _ctx: SudoCtx, first: u32, second: u32) -> StdResult<Response> { Ok(Response::new()) }
+        fn ab2c(&self, _ctx: ExecCtx, first: u32, second: u32) -> StdResult<Response> { Ok(Response::new()) }
+        fn ab2cd(&self, _ctx: ExecCtx, first: u32, second: u32) -> StdResult<Response> { Ok(Response::new()) }
+        fn ab_c2(&self, _ctx: ExecCtx, first: u32, second: u32) -> StdResult<Response> { Ok(Response::new()) }
+        fn ab_cd(&self, _ctx: ExecCtx, first: u32, second: u32) -> StdResult<Response> { Ok(Response::new()) }
+        fn _a__2(&self, _ctx: QueryCtx, first: u32, second: u32) -> StdResult<Resp> { Ok(Resp {}) }
+        fn _a___(&self, _ctx: QueryCtx, first: u32, second: u32) -> StdResult<Resp> { Ok(Resp {}) }
+        fn _ab__(&self, _ctx: QueryCtx, first: u32, second: u32) -> StdResult<Resp> { Ok(Resp {}) }
+        fn a2_2_(&self, _ctx: QueryCtx, first: u32, second: u32) -> StdResult<Resp> { Ok(Resp {}) }
+        fn a2b_(&self, _ctx: SudoCtx, first: u32, second: u32) -> StdResult<Response> { Ok(Response::new()) }
+        fn a_bc_(&self, _ctx: SudoCtx, first: u32, second: u32) -> StdResult<Response> { Ok(Response::new()) }
+        fn ab2(&self, _ctx: SudoCtx, first: u32, second: u32) -> StdResult<Response> { Ok(Response::new()) }
+        fn ab2_2(&self, _ctx: SudoCtx, first: u32, second: u32) -> StdResult<Response> { Ok(Response::new()) }
     }
 
     #[entry_points]
@@ -1060,29 +1060,29 @@ pub mod tc10 {
         #[sv::msg(instantiate)]
         fn instantiate(&self, _ctx: InstantiateCtx) -> StdResult<Response> { Ok(Response::new()) }
         #[sv::msg(exec)]
-        fn _a__2(&self, _ctx: ExecCtx, first: u32, second: u32) -> StdResult<Response> { Ok(Response::new()) }
+        fn a(&self, _ctx: ExecCtx, first: u32, second: u32) -> StdResult<Response> { Ok(Response::new()) }
         #[sv::msg(exec)]
-        fn _a___(&self, _ctx: ExecCtx, first: u32, second: u32) -> StdResult<Response> { Ok(Response::new()) }
+        fn a2(&self, _ctx: ExecCtx, first: u32, second: u32) -> StdResult<Response> { Ok(Response::new()) }
         #[sv::msg(exec)]
-        fn _ab_(&self, _ctx: ExecCtx, first: u32, second: u32) -> StdResult<Response> { Ok(Response::new()) }
+        fn a2__2(&self, _ctx: ExecCtx, first: u32, second: u32) -> StdResult<Response> { Ok(Response::new()) }
         #[sv::msg(exec)]
-        fn a22_2(&self, _ctx: ExecCtx, first: u32, second: u32) -> StdResult<Response> { Ok(Response::new()) }
+        fn a2b__(&self, _ctx: ExecCtx, first: u32, second: u32) -> StdResult<Response> { Ok(Response::new()) }
         #[sv::msg(query)]
-        fn a22__(&self, _ctx: QueryCtx, first: u32, second: u32) -> StdResult<Resp> { Ok(Resp {}) }
+        fn a___b(&self, _ctx: QueryCtx, first: u32, second: u32) -> StdResult<Resp> { Ok(Resp {}) }
         #[sv::msg(query)]
-        fn a22b(&self, _ctx: QueryCtx, first: u32, second: u32) -> StdResult<Resp> { Ok(Resp {}) }
+        fn ab2_(&self, _ctx: QueryCtx, first: u32, second: u32) -> StdResult<Resp> { Ok(Resp {}) }
         #[sv::msg(query)]
-        fn a22bc(&self, _ctx: QueryCtx, first: u32, second: u32) -> StdResult<Resp> { Ok(Resp {}) }
+        fn ab2c_(&self, _ctx: QueryCtx, first: u32, second: u32) -> StdResult<Resp> { Ok(Resp {}) }
         #[sv::msg(query)]
-        fn a2__b(&self, _ctx: QueryCtx, first: u32, second: u32) -> StdResult<Resp> { Ok(Resp {}) }
+        fn ab_22(&self, _ctx: QueryCtx, first: u32, second: u32) -> StdResult<Resp> { Ok(Resp {}) }
         #[sv::msg(sudo)]
-        fn a2_b2(&self, _ctx: SudoCtx, first: u32, second: u32) -> StdResult<Response> { Ok(Response::new()) }
+        fn ab__c(&self, _ctx: SudoCtx, first: u32, second: u32) -> StdResult<Response> { Ok(Response::new()) }
         #[sv::msg(sudo)]
-        fn a2_bc(&self, _ctx: SudoCtx, first: u32, second: u32) -> StdResult<Response> { Ok(Response::new()) }
+        fn abc2(&self, _ctx: SudoCtx, first: u32, second: u32) -> StdResult<Response> { Ok(Response::new()) }
         #[sv::msg(sudo)]
-        fn a2b22(&self, _ctx: SudoCtx, first: u32, second: u32) -> StdResult<Response> { Ok(Response::new()) }
+        fn abc22(&self, _ctx: SudoCtx, first: u32, second: u32) -> StdResult<Response> { Ok(Response::new()) }
         #[sv::msg(sudo)]
-        fn a2b2c(&self, _ctx: SudoCtx, first: u32, second: u32) -> StdResult<Response> { Ok(Response::new()) }
+        fn abc2d(&self, _ctx: SudoCtx, first: u32, second: u32) -> StdResult<Response> { Ok(Response::new()) }
     }
 }
 
@@ -1093,29 +1093,29 @@ pub mod ti10 {
     pub trait Shapes10 {
         type Error: From<StdError>;
         #[sv::msg(exec)]
-        fn a2_b2(&self, ctx: ExecCtx, first: u32, second: u32) -> Result<Response, Self::Error>;
+        fn ab__c(&self, ctx: ExecCtx, first: u32, second: u32) -> Result<Response, Self::Error>;
         #[sv::msg(exec)]
-        fn a2_bc(&self, ctx: ExecCtx, first: u32, second: u32) -> Result<Response, Self::Error>;
+        fn abc2(&self, ctx: ExecCtx, first: u32, second: u32) -> Result<Response, Self::Error>;
         #[sv::msg(exec)]
-        fn a2b22(&self, ctx: ExecCtx, first: u32, second: u32) -> Result<Response, Self::Error>;
+        fn abc22(&self, ctx: ExecCtx, first: u32, second: u32) -> Result<Response, Self::Error>;
         #[sv::msg(exec)]
-        fn a2b2c(&self, ctx: ExecCtx, first: u32, second: u32) -> Result<Response, Self::Error>;
+        fn abc2d(&self, ctx: ExecCtx, first: u32, second: u32) -> Result<Response, Self::Error>;
         #[sv::msg(query)]
-        fn _a__2(&self, ctx: QueryCtx, first: u32, second: u32) -> Result<Resp, Self::Error>;
+        fn a(&self, ctx: QueryCtx, first: u32, second: u32) -> Result<Resp, Self::Error>;
         #[sv::msg(query)]
-        fn _a___(&self, ctx: QueryCtx, first: u32, second: u32) -> Result<Resp, Self::Error>;
+        fn a2(&self, ctx: QueryCtx, first: u32, second: u32) -> Result<Resp, Self::Error>;
         #[sv::msg(query)]
-        fn _ab_(&self, ctx: QueryCtx, first: u32, second: u32) -> Result<Resp, Self::Error>;
+        fn a2__2(&self, ctx: QueryCtx, first: u32, second: u32) -> Result<Resp, Self::Error>;
         #[sv::msg(query)]
-        fn a22_2(&self, ctx: QueryCtx, first: u32, second: u32) -> Result<Resp, Self::Error>;
+        fn a2b__(&self, ctx: QueryCtx, first: u32, second: u32) -> Result<Resp, Self::Error>;
         #[sv::msg(sudo)]
-        fn a22__(&self, ctx: SudoCtx, first: u32, second: u32) -> Result<Response, Self::Error>;
+        fn a___b(&self, ctx: SudoCtx, first: u32, second: u32) -> Result<Response, Self::Error>;
         #[sv::msg(sudo)]
-        fn a22b(&self, ctx: SudoCtx, first: u32, second: u32) -> Result<Response, Self::Error>;
+        fn ab2_(&self, ctx: SudoCtx, first: u32, second: u32) -> Result<Response, Self::Error>;
         #[sv::msg(sudo)]
-        fn a22bc(&self, ctx: SudoCtx, first: u32, second: u32) -> Result<Response, Self::Error>;
+        fn ab2c_(&self, ctx: SudoCtx, first: u32, second: u32) -> Result<Response, Self::Error>;
         #[sv::msg(sudo)]
-        fn a2__b(&self, ctx: SudoCtx, first: u32, second: u32) -> Result<Response, Self::Error>;
+        fn ab_22(&self, ctx: SudoCtx, first: u32, second: u32) -> Result<Response, Self::Error>;
     }
 }
 
@@ -1125,18 +1125,18 @@ pub mod tu10 {
 
     impl super::ti10::Shapes10 for Contract {
         type Error = StdError;
-        fn a2_b2(&self, _ctx: ExecCtx, first: u32, second: u32) -> StdResult<Response> { Ok(Response::new()) }
-        fn a2_bc(&self, _ctx: ExecCtx, first: u32, second: u32) -> StdResult<Response> { Ok(Response::new()) }
-        fn a2b22(&self, _ctx: ExecCtx, first: u32, second: u32) -> StdResult<Response> { Ok(Response::new()) }
-        fn a2b2c(&self, _ctx: ExecCtx, first: u32, second: u32) -> StdResult<Response> { Ok(Response::new()) }
-        fn _a__2(&self, _ctx: QueryCtx, first: u32, second: u32) -> StdResult<Resp> { Ok(Resp {}) }
-        fn _a___(&self, _ctx: QueryCtx, first: u32, second: u32) -> StdResult<Resp> { Ok(Resp {}) }
-        fn _ab_(&self, _ctx: QueryCtx, first: u32, second: u32) -> StdResult<Resp> { Ok(Resp {}) }
-        fn a22_2(&self, _ctx: QueryCtx, first: u32, second: u32) -> StdResult<Resp> { Ok(Resp {}) }
-        fn a22__(&self, _ctx: SudoCtx, first: u32, second: u32) -> StdResult<Response> { Ok(Response::new()) }
-        fn a22b(&self, _ctx: SudoCtx, first: u32, second: u32) -> StdResult<Response> { Ok(Response::new()) }
-        fn a22bc(&self, _ctx: SudoCtx, first: u32, second: u32) -> StdResult<Response> { Ok(Response::new()) }
-        fn a2__b(&self, _ctx: SudoCtx, first: u32, second: u32) -> StdResult<Response> { Ok(Response::new()) }
+        fn ab__c(&self, _ctx: ExecCtx, first: u32, second: u32) -> StdResult<Response> { Ok(Response::new()) }
+        fn abc2(&self, _ctx: ExecCtx, first: u32, second: u32) -> StdResult<Response> { Ok(Response::new()) }
+        fn abc22(&self, _ctx: ExecCtx, first: u32, second: u32) -> StdResult<Response> { Ok(Response::new()) }
+        fn abc2d(&self, _ctx: ExecCtx, first: u32, second: u32) -> StdResult<Response> { Ok(Response::new()) }
+        fn a(&self, _ctx: QueryCtx, first: u32, second: u32) -> StdResult<Resp> { Ok(Resp {}) }
+        fn a2(&self, _ctx: QueryCtx, first: u32, second: u32) -> StdResult<Resp> { Ok(Resp {}) }
+        fn a2__2(&self, _ctx: QueryCtx, first: u32, second: u32) -> StdResult<Resp> { Ok(Resp {}) }
+        fn a2b__(&self, _ctx: QueryCtx, first: u32, second: u32) -> StdResult<Resp> { Ok(Resp {}) }
+        fn a___b(&self, _ctx: SudoCtx, first: u32, second: u32) -> StdResult<Response> { Ok(Response::new()) }
+        fn ab2_(&self, _ctx: SudoCtx, first: u32, second: u32) -> StdResult<Response> { Ok(Response::new()) }
+        fn ab2c_(&self, _ctx: SudoCtx, first: u32, second: u32) -> StdResult<Response> { Ok(Response::new()) }
+        fn ab_22(&self, _ctx: SudoCtx, first: u32, second: u32) -> StdResult<Response> { Ok(Response::new()) }
     }
 
     #[entry_points]
@@ -1164,29 +1164,29 @@ pub mod tc11 {
         #[sv::msg(instantiate)]
         fn instantiate(&self, _ctx: InstantiateCtx) -> StdResult<Response> { Ok(Response::new()) }
         #[sv::msg(exec)]
-        fn _ab__(&self, _ctx: ExecCtx, first: u32, second: u32) -> StdResult<Response> { Ok(Response::new()) }
+        fn a2_(&self, _ctx: ExecCtx, first: u32, second: u32) -> StdResult<Response> { Ok(Response::new()) }
         #[sv::msg(exec)]
-        fn a(&self, _ctx: ExecCtx, first: u32, second: u32) -> StdResult<Response> { Ok(Response::new()) }
+        fn a_(&self, _ctx: ExecCtx, first: u32, second: u32) -> StdResult<Response> { Ok(Response::new()) }
         #[sv::msg(exec)]
-        fn a2(&self, _ctx: ExecCtx, first: u32, second: u32) -> StdResult<Response> { Ok(Response::new()) }
+        fn a_22(&self, _ctx: ExecCtx, first: u32, second: u32) -> StdResult<Response> { Ok(Response::new()) }
         #[sv::msg(exec)]
-        fn a22b_(&self, _ctx: ExecCtx, first: u32, second: u32) -> StdResult<Response> { Ok(Response::new()) }
+        fn a_2_b(&self, _ctx: ExecCtx, first: u32, second: u32) -> StdResult<Response> { Ok(Response::new()) }
         #[sv::msg(query)]
-        fn a2_2(&self, _ctx: QueryCtx, first: u32, second: u32) -> StdResult<Resp> { Ok(Resp {}) }
+        fn a__b(&self, _ctx: QueryCtx, first: u32, second: u32) -> StdResult<Resp> { Ok(Resp {}) }
         #[sv::msg(query)]
-        fn a2_22(&self, _ctx: QueryCtx, first: u32, second: u32) -> StdResult<Resp> { Ok(Resp {}) }
+        fn ab2__(&self, _ctx: QueryCtx, first: u32, second: u32) -> StdResult<Resp> { Ok(Resp {}) }
         #[sv::msg(query)]
-        fn a2_b(&self, _ctx: QueryCtx, first: u32, second: u32) -> StdResult<Resp> { Ok(Resp {}) }
+        fn ab_2c(&self, _ctx: QueryCtx, first: u32, second: u32) -> StdResult<Resp> { Ok(Resp {}) }
         #[sv::msg(query)]
-        fn a2b2(&self, _ctx: QueryCtx, first: u32, second: u32) -> StdResult<Resp> { Ok(Resp {}) }
+        fn ab_c(&self, _ctx: QueryCtx, first: u32, second: u32) -> StdResult<Resp> { Ok(Resp {}) }
         #[sv::msg(sudo)]
-        fn a2b_c(&self, _ctx: SudoCtx, first: u32, second: u32) -> StdResult<Response> { Ok(Response::new()) }
+        fn abc2_(&self, _ctx: SudoCtx, first: u32, second: u32) -> StdResult<Response> { Ok(Response::new()) }
         #[sv::msg(sudo)]
-        fn a2bc2(&self, _ctx: SudoCtx, first: u32, second: u32) -> StdResult<Response> { Ok(Response::new()) }
+        fn abc_d(&self, _ctx: SudoCtx, first: u32, second: u32) -> StdResult<Response> { Ok(Response::new()) }
         #[sv::msg(sudo)]
-        fn a2bcd(&self, _ctx: SudoCtx, first: u32, second: u32) -> StdResult<Response> { Ok(Response::new()) }
+        fn abcd2(&self, _ctx: SudoCtx, first: u32, second: u32) -> StdResult<Response> { Ok(Response::new()) }
         #[sv::msg(sudo)]
-        fn a__b2(&self, _ctx: SudoCtx, first: u32, second: u32) -> StdResult<Response> { Ok(Response::new()) }
+        fn abcde(&self, _ctx: SudoCtx, first: u32, second: u32) -> StdResult<Response> { Ok(Response::new()) }
     }
 }
 
@@ -1197,29 +1197,29 @@ pub mod ti11 {
     pub trait Shapes11 {
         type Error: From<StdError>;
         #[sv::msg(exec)]
-        fn a2b_c(&self, ctx: ExecCtx, first: u32, second: u32) -> Result<Response, Self::Error>;
+        fn abc2_(&self, ctx: ExecCtx, first: u32, second: u32) -> Result<Response, Self::Error>;
         #[sv::msg(exec)]
-        fn a2bc2(&self, ctx: ExecCtx, first: u32, second: u32) -> Result<Response, Self::Error>;
+        fn abc_d(&self, ctx: ExecCtx, first: u32, second: u32) -> Result<Response, Self::Error>;
         #[sv::msg(exec)]
-        fn a2bcd(&self, ctx: ExecCtx, first: u32, second: u32) -> Result<Response, Self::Error>;
+        fn abcd2(&self, ctx: ExecCtx, first: u32, second: u32) -> Result<Response, Self::Error>;
         #[sv::msg(exec)]
-        fn a__b2(&self, ctx: ExecCtx, first: u32, second: u32) -> Result<Response, Self::Error>;
+        fn abcde(&self, ctx: ExecCtx, first: u32, second: u32) -> Result<Response, Self::Error>;
         #[sv::msg(query)]
-        fn _ab__(&self, ctx: QueryCtx, first: u32, second: u32) -> Result<Resp, Self::Error>;
+        fn a2_(&self, ctx: QueryCtx, first: u32, second: u32) -> Result<Resp, Self::Error>;
         #[sv::msg(query)]
-        fn a(&self, ctx: QueryCtx, first: u32, second: u32) -> Result<Resp, Self::Error>;
+        fn a_(&self, ctx: QueryCtx, first: u32, second: u32) -> Result<Resp, Self::Error>;
         #[sv::msg(query)]
-        fn a2(&self, ctx: QueryCtx, first: u32, second: u32) -> Result<Resp, Self::Error>;
+        fn a_22(&self, ctx: QueryCtx, first: u32, second: u32) -> Result<Resp, Self::Error>;
         #[sv::msg(query)]
-        fn a22b_(&self, ctx: QueryCtx, first: u32, second: u32) -> Result<Resp, Self::Error>;
+        fn a_2_b(&self, ctx: QueryCtx, first: u32, second: u32) -> Result<Resp, Self::Error>;
         #[sv::msg(sudo)]
-        fn a2_2(&self, ctx: SudoCtx, first: u32, second: u32) -> Result<Response, Self::Error>;
+        fn a__b(&self, ctx: SudoCtx, first: u32, second: u32) -> Result<Response, Self::Error>;
         #[sv::msg(sudo)]
-        fn a2_22(&self, ctx: SudoCtx, first: u32, second: u32) -> Result<Response, Self::Error>;
+        fn ab2__(&self, ctx: SudoCtx, first: u32, second: u32) -> Result<Response, Self::Error>;
         #[sv::msg(sudo)]
-        fn a2_b(&self, ctx: SudoCtx, first: u32, second: u32) -> Result<Response, Self::Error>;
+        fn ab_2c(&self, ctx: SudoCtx, first: u32, second: u32) -> Result<Response, Self::Error>;
         #[sv::msg(sudo)]
-        fn a2b2(&self, ctx: SudoCtx, first: u32, second: u32) -> Result<Response, Self::Error>;
+        fn ab_c(&self, ctx: SudoCtx, first: u32, second: u32) -> Result<Response, Self::Error>;
     }
 }
 
@@ -1229,18 +1229,18 @@ pub mod tu11 {
 
     impl super::ti11::Shapes11 for Contract {
         type Error = StdError;
-        fn a2b_c(&self, _ctx: ExecCtx, first: u32, second: u32) -> StdResult<Response> { Ok(Response::new()) }
-        fn a2bc2(&self, _ctx: ExecCtx, first: u32, second: u32) -> StdResult<Response> { Ok(Response::new()) }
-        fn a2bcd(&self, _ctx: ExecCtx, first: u32, second: u32) -> StdResult<Response> { Ok(Response::new()) }
-        fn a__b2(&self, _ctx: ExecCtx, first: u32, second: u32) -> StdResult<Response> { Ok(Response::new()) }
-        fn _ab__(&self, _ctx: QueryCtx, first: u32, second: u32) -> StdResult<Resp> { Ok(Resp {}) }
-        fn a(&self, _ctx: QueryCtx, first: u32, second: u32) -> StdResult<Resp> { Ok(Resp {}) }
-        fn a2(&self, _ctx: QueryCtx, first: u32, second: u32) -> StdResult<Resp> { Ok(Resp {}) }
-        fn a22b_(&self, _ctx: QueryCtx, first: u32, second: u32) -> StdResult<Resp> { Ok(Resp {}) }
-        fn a2_2(&self, _ctx: SudoCtx, first: u32, second: u32) -> StdResult<Response> { Ok(Response::new()) }
-        fn a2_22(&self, _ctx: SudoCtx, first: u32, second: u32) -> StdResult<Response> { Ok(Response::new()) }
-        fn a2_b(&self, _ctx: SudoCtx, first: u32, second: u32) -> StdResult<Response> { Ok(Response::new()) }
-        fn a2b2(&self, _ctx: SudoCtx, first: u32, second: u32) -> StdResult<Response> { Ok(Response::new()) }
+        fn abc2_(&self, _ctx: ExecCtx, first: u32, second: u32) -> StdResult<Response> { Ok(Response::new()) }
+        fn abc_d(&self, _ctx: ExecCtx, first: u32, second: u32) -> StdResult<Response> { Ok(Response::new()) }
+        fn abcd2(&self, _ctx: ExecCtx, first: u32, second: u32) -> StdResult<Response> { Ok(Response::new()) }
+        fn abcde(&self, _ctx: ExecCtx, first: u32, second: u32) -> StdResult<Response> { Ok(Response::new()) }
+        fn a2_(&self, _ctx: QueryCtx, first: u32, second: u32) -> StdResult<Resp> { Ok(Resp {}) }
+        fn a_(&self, _ctx: QueryCtx, first: u32, second: u32) -> StdResult<Resp> { Ok(Resp {}) }
+        fn a_22(&self, _ctx: QueryCtx, first: u32, second: u32) -> StdResult<Resp> { Ok(Resp {}) }
+        fn a_2_b(&self, _ctx: QueryCtx, first: u32, second: u32) -> StdResult<Resp> { Ok(Resp {}) }
+        fn a__b(&self, _ctx: SudoCtx, first: u32, second: u32) -> StdResult<Response> { Ok(Response::new()) }
+        fn ab2__(&self, _ctx: SudoCtx, first: u32, second: u32) -> StdResult<Response> { Ok(Response::new()) }
+        fn ab_2c(&self, _ctx: SudoCtx, first: u32, second: u32) -> StdResult<Response> { Ok(Response::new()) }
+        fn ab_c(&self, _ctx: SudoCtx, first: u32, second: u32) -> StdResult<Response> { Ok(Response::new()) }
     }
 
     #[entry_points]
@@ -1268,29 +1268,23 @@ pub mod tc12 {
         #[sv::msg(instantiate)]
         fn instantiate(&self, _ctx: InstantiateCtx) -> StdResult<Response> { Ok(Response::new()) }
         #[sv::msg(exec)]
-        fn a2_(&self, _ctx: ExecCtx, first: u32, second: u32) -> StdResult<Response> { Ok(Response::new()) }
+        fn a2__(&self, _ctx: ExecCtx, first: u32, second: u32) -> StdResult<Response> { Ok(Response::new()) }
         #[sv::msg(exec)]
-        fn a2_2_(&self, _ctx: ExecCtx, first: u32, second: u32) -> StdResult<Response> { Ok(Response::new()) }
+        fn a_22_(&self, _ctx: ExecCtx, first: u32, second: u32) -> StdResult<Response> { Ok(Response::new()) }
         #[sv::msg(exec)]
-        fn a2_2b(&self, _ctx: ExecCtx, first: u32, second: u32) -> StdResult<Response> { Ok(Response::new()) }
-        #[sv::msg(exec)]
-        fn a2_b_(&self, _ctx: ExecCtx, first: u32, second: u32) -> StdResult<Response> { Ok(Response::new()) }
+        fn a_2b(&self, _ctx: ExecCtx, first: u32, second: u32) -> StdResult<Response> { Ok(Response::new()) }
         #[sv::msg(query)]
-        fn a2b2_(&self, _ctx: QueryCtx, first: u32, second: u32) -> StdResult<Resp> { Ok(Resp {}) }
+        fn a__(&self, _ctx: QueryCtx, first: u32, second: u32) -> StdResult<Resp> { Ok(Resp {}) }
         #[sv::msg(query)]
-        fn a2bc(&self, _ctx: QueryCtx, first: u32, second: u32) -> StdResult<Resp> { Ok(Resp {}) }
+        fn a__b_(&self, _ctx: QueryCtx, first: u32, second: u32) -> StdResult<Resp> { Ok(Resp {}) }
         #[sv::msg(query)]
-        fn a_(&self, _ctx: QueryCtx, first: u32, second: u32) -> StdResult<Resp> { Ok(Resp {}) }
-        #[sv::msg(query)]
-        fn a_222(&self, _ctx: QueryCtx, first: u32, second: u32) -> StdResult<Resp> { Ok(Resp {}) }
+        fn ab_2(&self, _ctx: QueryCtx, first: u32, second: u32) -> StdResult<Resp> { Ok(Resp {}) }
         #[sv::msg(sudo)]
-        fn a___b(&self, _ctx: SudoCtx, first: u32, second: u32) -> StdResult<Response> { Ok(Response::new()) }
+        fn ab_c_(&self, _ctx: SudoCtx, first: u32, second: u32) -> StdResult<Response> { Ok(Response::new()) }
         #[sv::msg(sudo)]
-        fn a__bc(&self, _ctx: SudoCtx, first: u32, second: u32) -> StdResult<Response> { Ok(Response::new()) }
+        fn abc_2(&self, _ctx: SudoCtx, first: u32, second: u32) -> StdResult<Response> { Ok(Response::new()) }
         #[sv::msg(sudo)]
-        fn a_b2(&self, _ctx: SudoCtx, first: u32, second: u32) -> StdResult<Response> { Ok(Response::new()) }
-        #[sv::msg(sudo)]
-        fn a_b22(&self, _ctx: SudoCtx, first: u32, second: u32) -> StdResult<Response> { Ok(Response::new()) }
+        fn abcd(&self, _ctx: SudoCtx, first: u32, second: u32) -> StdResult<Response> { Ok(Response::new()) }
     }
 }
 
@@ -1301,29 +1295,23 @@ pub mod ti12 {
     pub trait Shapes12 {
         type Error: From<StdError>;
         #[sv::msg(exec)]
-        fn a___b(&self, ctx: ExecCtx, first: u32, second: u32) -> Result<Response, Self::Error>;
+        fn ab_c_(&self, ctx: ExecCtx, first: u32, second: u32) -> Result<Response, Self::Error>;
         #[sv::msg(exec)]
-        fn a__bc(&self, ctx: ExecCtx, first: u32, second: u32) -> Result<Response, Self::Error>;
+        fn abc_2(&self, ctx: ExecCtx, first: u32, second: u32) -> Result<Response, Self::Error>;
         #[sv::msg(exec)]
-        fn a_b2(&self, ctx: ExecCtx, first: u32, second: u32) -> Result<Response, Self::Error>;
-        #[sv::msg(exec)]
-        fn a_b22(&self, ctx: ExecCtx, first: u32, second: u32) -> Result<Response, Self::Error>;
+        fn abcd(&self, ctx: ExecCtx, first: u32, second: u32) -> Result<Response, Self::Error>;
         #[sv::msg(query)]
-        fn a2_(&self, ctx: QueryCtx, first: u32, second: u32) -> Result<Resp, Self::Error>;
+        fn a2__(&self, ctx: QueryCtx, first: u32, second: u32) -> Result<Resp, Self::Error>;
         #[sv::msg(query)]
-        fn a2_2_(&self, ctx: QueryCtx, first: u32, second: u32) -> Result<Resp, Self::Error>;
+        fn a_22_(&self, ctx: QueryCtx, first: u32, second: u32) -> Result<Resp, Self::Error>;
         #[sv::msg(query)]
-        fn a2_2b(&self, ctx: QueryCtx, first: u32, second: u32) -> Result<Resp, Self::Error>;
-        #[sv::msg(query)]
-        fn a2_b_(&self, ctx: QueryCtx, first: u32, second: u32) -> Result<Resp, Self::Error>;
+        fn a_2b(&self, ctx: QueryCtx, first: u32, second: u32) -> Result<Resp, Self::Error>;
         #[sv::msg(sudo)]
-        fn a2b2_(&self, ctx: SudoCtx, first: u32, second: u32) -> Result<Response, Self::Error>;
+        fn a__(&self, ctx: SudoCtx, first: u32, second: u32) -> Result<Response, Self::Error>;
         #[sv::msg(sudo)]
-        fn a2bc(&self, ctx: SudoCtx, first: u32, second: u32) -> Result<Response, Self::Error>;
+        fn a__b_(&self, ctx: SudoCtx, first: u32, second: u32) -> Result<Response, Self::Error>;
         #[sv::msg(sudo)]
-        fn a_(&self, ctx: SudoCtx, first: u32, second: u32) -> Result<Response, Self::Error>;
-        #[sv::msg(sudo)]
-        fn a_222(&self, ctx: SudoCtx, first: u32, second: u32) -> Result<Response, Self::Error>;
+        fn ab_2(&self, ctx: SudoCtx, first: u32, second: u32) -> Result<Response, Self::Error>;
     }
 }
 
@@ -1333,18 +1321,15 @@ pub mod tu12 {
 
     impl super::ti12::Shapes12 for Contract {
         type Error = StdError;
-        fn a___b(&self, _ctx: ExecCtx, first: u32, second: u32) -> StdResult<Response> { Ok(Response::new()) }
-        fn a__bc(&self, _ctx: ExecCtx, first: u32, second: u32) -> StdResult<Response> { Ok(Response::new()) }
-        fn a_b2(&self, _ctx: ExecCtx, first: u32, second: u32) -> StdResult<Response> { Ok(Response::new()) }
-        fn a_b22(&self, _ctx: ExecCtx, first: u32, second: u32) -> StdResult<Response> { Ok(Response::new()) }
-        fn a2_(&self, _ctx: QueryCtx, first: u32, second: u32) -> StdResult<Resp> { Ok(Resp {}) }
-        fn a2_2_(&self, _ctx: QueryCtx, first: u32, second: u32) -> StdResult<Resp> { Ok(Resp {}) }
-        fn a2_2b(&self, _ctx: QueryCtx, first: u32, second: u32) -> StdResult<Resp> { Ok(Resp {}) }
-        fn a2_b_(&self, _ctx: QueryCtx, first: u32, second: u32) -> StdResult<Resp> { Ok(Resp {}) }
-        fn a2b2_(&self, _ctx: SudoCtx, first: u32, second: u32) -> StdResult<Response> { Ok(Response::new()) }
-        fn a2bc(&self, _ctx: SudoCtx, first: u32, second: u32) -> StdResult<Response> { Ok(Response::new()) }
-        fn a_(&self, _ctx: SudoCtx, first: u32, second: u32) -> StdResult<Response> { Ok(Response::new()) }
-        fn a_222(&self, _ctx: SudoCtx, first: u32, second: u32) -> StdResult<Response> { Ok(Response::new()) }
+        fn ab_c_(&self, _ctx: ExecCtx, first: u32, second: u32) -> StdResult<Response> { Ok(Response::new()) }
+        fn abc_2(&self, _ctx: ExecCtx, first: u32, second: u32) -> StdResult<Response> { Ok(Response::new()) }
+        fn abcd(&self, _ctx: ExecCtx, first: u32, second: u32) -> StdResult<Response> { Ok(Response::new()) }
+        fn a2__(&self, _ctx: QueryCtx, first: u32, second: u32) -> StdResult<Resp> { Ok(Resp {}) }
+        fn a_22_(&self, _ctx: QueryCtx, first: u32, second: u32) -> StdResult<Resp> { Ok(Resp {}) }
+        fn a_2b(&self, _ctx: QueryCtx, first: u32, second: u32) -> StdResult<Resp> { Ok(Resp {}) }
+        fn a__(&self, _ctx: SudoCtx, first: u32, second: u32) -> StdResult<Response> { Ok(Response::new()) }
+        fn a__b_(&self, _ctx: SudoCtx, first: u32, second: u32) -> StdResult<Response> { Ok(Response::new()) }
+        fn ab_2(&self, _ctx: SudoCtx, first: u32, second: u32) -> StdResult<Response> { Ok(Response::new()) }
     }
 
     #[entry_points]
@@ -1372,29 +1357,21 @@ pub mod tc13 {
         #[sv::msg(instantiate)]
         fn instantiate(&self, _ctx: InstantiateCtx) -> StdResult<Response> { Ok(Response::new()) }
         #[sv::msg(exec)]
-        fn a2__(&self, _ctx: ExecCtx, first: u32, second: u32) -> StdResult<Response> { Ok(Response::new()) }
+        fn a2___(&self, _ctx: ExecCtx, first: u32, second: u32) -> StdResult<Response> { Ok(Response::new()) }
         #[sv::msg(exec)]
-        fn a2__2(&self, _ctx: ExecCtx, first: u32, second: u32) -> StdResult<Response> { Ok(Response::new()) }
-        #[sv::msg(exec)]
-        fn a2b(&self, _ctx: ExecCtx, first: u32, second: u32) -> StdResult<Response> { Ok(Response::new()) }
-        #[sv::msg(exec)]
-        fn a2b_2(&self, _ctx: ExecCtx, first: u32, second: u32) -> StdResult<Response> { Ok(Response::new()) }
+        fn a_2_2(&self, _ctx: ExecCtx, first: u32, second: u32) -> StdResult<Response> { Ok(Response::new()) }
         #[sv::msg(query)]
-        fn a2bc_(&self, _ctx: QueryCtx, first: u32, second: u32) -> StdResult<Resp> { Ok(Resp {}) }
+        fn a_2b_(&self, _ctx: QueryCtx, first: u32, second: u32) -> StdResult<Resp> { Ok(Resp {}) }
         #[sv::msg(query)]
-        fn a_22b(&self, _ctx: QueryCtx, first: u32, second: u32) -> StdResult<Resp> { Ok(Resp {}) }
-        #[sv::msg(query)]
-        fn a__(&self, _ctx: QueryCtx, first: u32, second: u32) -> StdResult<Resp> { Ok(Resp {}) }
-        #[sv::msg(query)]
-        fn a__b(&self, _ctx: QueryCtx, first: u32, second: u32) -> StdResult<Resp> { Ok(Resp {}) }
+        fn a___(&self, _ctx: QueryCtx, first: u32, second: u32) -> StdResult<Resp> { Ok(Resp {}) }
         #[sv::msg(sudo)]
-        fn a_b2_(&self, _ctx: SudoCtx, first: u32, second: u32) -> StdResult<Response> { Ok(Response::new()) }
+        fn a_b(&self, _ctx: SudoCtx, first: u32, second: u32) -> StdResult<Response> { Ok(Response::new()) }
         #[sv::msg(sudo)]
-        fn a_b2c(&self, _ctx: SudoCtx, first: u32, second: u32) -> StdResult<Response> { Ok(Response::new()) }
+        fn ab_2_(&self, _ctx: SudoCtx, first: u32, second: u32) -> StdResult<Response> { Ok(Response::new()) }
         #[sv::msg(sudo)]
-        fn a_b_c(&self, _ctx: SudoCtx, first: u32, second: u32) -> StdResult<Response> { Ok(Response::new()) }
+        fn abc(&self, _ctx: SudoCtx, first: u32, second: u32) -> StdResult<Response> { Ok(Response::new()) }
         #[sv::msg(sudo)]
-        fn a_bc2(&self, _ctx: SudoCtx, first: u32, second: u32) -> StdResult<Response> { Ok(Response::new()) }
+        fn abcd_(&self, _ctx: SudoCtx, first: u32, second: u32) -> StdResult<Response> { Ok(Response::new()) }
     }
 }
 
@@ -1405,29 +1382,21 @@ pub mod ti13 {
     pub trait Shapes13 {
         type Error: From<StdError>;
         #[sv::msg(exec)]
-        fn a_b2_(&self, ctx: ExecCtx, first: u32, second: u32) -> Result<Response, Self::Error>;
+        fn a_b(&self, ctx: ExecCtx, first: u32, second: u32) -> Result<Response, Self::Error>;
         #[sv::msg(exec)]
-        fn a_b2c(&self, ctx: ExecCtx, first: u32, second: u32) -> Result<Response, Self::Error>;
+        fn ab_2_(&self, ctx: ExecCtx, first: u32, second: u32) -> Result<Response, Self::Error>;
         #[sv::msg(exec)]
-        fn a_b_c(&self, ctx: ExecCtx, first: u32, second: u32) -> Result<Response, Self::Error>;
+        fn abc(&self, ctx: ExecCtx, first: u32, second: u32) -> Result<Response, Self::Error>;
         #[sv::msg(exec)]
-        fn a_bc2(&self, ctx: ExecCtx, first: u32, second: u32) -> Result<Response, Self::Error>;
+        fn abcd_(&self, ctx: ExecCtx, first: u32, second: u32) -> Result<Response, Self::Error>;
         #[sv::msg(query)]
-        fn a2__(&self, ctx: QueryCtx, first: u32, second: u32) -> Result<Resp, Self::Error>;
+        fn a2___(&self, ctx: QueryCtx, first: u32, second: u32) -> Result<Resp, Self::Error>;
         #[sv::msg(query)]
-        fn a2__2(&self, ctx: QueryCtx, first: u32, second: u32) -> Result<Resp, Self::Error>;
-        #[sv::msg(query)]
-        fn a2b(&self, ctx: QueryCtx, first: u32, second: u32) -> Result<Resp, Self::Error>;
-        #[sv::msg(query)]
-        fn a2b_2(&self, ctx: QueryCtx, first: u32, second: u32) -> Result<Resp, Self::Error>;
+        fn a_2_2(&self, ctx: QueryCtx, first: u32, second: u32) -> Result<Resp, Self::Error>;
         #[sv::msg(sudo)]
-        fn a2bc_(&self, ctx: SudoCtx, first: u32, second: u32) -> Result<Response, Self::Error>;
+        fn a_2b_(&self, ctx: SudoCtx, first: u32, second: u32) -> Result<Response, Self::Error>;
         #[sv::msg(sudo)]
-        fn a_22b(&self, ctx: SudoCtx, first: u32, second: u32) -> Result<Response, Self::Error>;
-        #[sv::msg(sudo)]
-        fn a__(&self, ctx: SudoCtx, first: u32, second: u32) -> Result<Response, Self::Error>;
-        #[sv::msg(sudo)]
-        fn a__b(&self, ctx: SudoCtx, first: u32, second: u32) -> Result<Response, Self::Error>;
+        fn a___(&self, ctx: SudoCtx, first: u32, second: u32) -> Result<Response, Self::Error>;
     }
 }
 
@@ -1437,18 +1406,14 @@ pub mod tu13 {
 
     impl super::ti13::Shapes13 for Contract {
         type Error = StdError;
-        fn a_b2_(&self, _ctx: ExecCtx, first: u32, second: u32) -> StdResult<Response> { Ok(Response::new()) }
-        fn a_b2c(&self, _ctx: ExecCtx, first: u32, second: u32) -> StdResult<Response> { Ok(Response::new()) }
-        fn a_b_c(&self, _ctx: ExecCtx, first: u32, second: u32) -> StdResult<Response> { Ok(Response::new()) }
-        fn a_bc2(&self, _ctx: ExecCtx, first: u32, second: u32) -> StdResult<Response> { Ok(Response::new()) }
-        fn a2__(&self, _ctx: QueryCtx, first: u32, second: u32) -> StdResult<Resp> { Ok(Resp {}) }
-        fn a2__2(&self, _ctx: QueryCtx, first: u32, second: u32) -> StdResult<Resp> { Ok(Resp {}) }
-        fn a2b(&self, _ctx: QueryCtx, first: u32, second: u32) -> StdResult<Resp> { Ok(Resp {}) }
-        fn a2b_2(&self, _ctx: QueryCtx, first: u32, second: u32) -> StdResult<Resp> { Ok(Resp {}) }
-        fn a2bc_(&self, _ctx: SudoCtx, first: u32, second: u32) -> StdResult<Response> { Ok(Response::new()) }
-        fn a_22b(&self, _ctx: SudoCtx, first: u32, second: u32) -> StdResult<Response> { Ok(Response::new()) }
-        fn a__(&self, _ctx: SudoCtx, first: u32, second: u32) -> StdResult<Response> { Ok(Response::new()) }
-        fn a__b(&self, _ctx: SudoCtx, first: u32, second: u32) -> StdResult<Response> { Ok(Response::new()) }
+        fn a_b(&self, _ctx: ExecCtx, first: u32, second: u32) -> StdResult<Response> { Ok(Response::new()) }
+        fn ab_2_(&self, _ctx: ExecCtx, first: u32, second: u32) -> StdResult<Response> { Ok(Response::new()) }
+        fn abc(&self, _ctx: ExecCtx, first: u32, second: u32) -> StdResult<Response> { Ok(Response::new()) }
+        fn abcd_(&self, _ctx: ExecCtx, first: u32, second: u32) -> StdResult<Response> { Ok(Response::new()) }
+        fn a2___(&self, _ctx: QueryCtx, first: u32, second: u32) -> StdResult<Resp> { Ok(Resp {}) }
+        fn a_2_2(&self, _ctx: QueryCtx, first: u32, second: u32) -> StdResult<Resp> { Ok(Resp {}) }
+        fn a_2b_(&self, _ctx: SudoCtx, first: u32, second: u32) -> StdResult<Response> { Ok(Response::new()) }
+        fn a___(&self, _ctx: SudoCtx, first: u32, second: u32) -> StdResult<Response> { Ok(Response::new()) }
     }
 
     #[entry_points]
@@ -1476,29 +1441,19 @@ pub mod tc14 {
         #[sv::msg(instantiate)]
         fn instantiate(&self, _ctx: InstantiateCtx) -> StdResult<Response> { Ok(Response::new()) }
         #[sv::msg(exec)]
-        fn a2___(&self, _ctx: ExecCtx, first: u32, second: u32) -> StdResult<Response> { Ok(Response::new()) }
+        fn a_2(&self, _ctx: ExecCtx, first: u32, second: u32) -> StdResult<Response> { Ok(Response::new()) }
         #[sv::msg(exec)]
-        fn a2b_(&self, _ctx: ExecCtx, first: u32, second: u32) -> StdResult<Response> { Ok(Response::new()) }
-        #[sv::msg(exec)]
-        fn a_22(&self, _ctx: ExecCtx, first: u32, second: u32) -> StdResult<Response> { Ok(Response::new()) }
-        #[sv::msg(exec)]
-        fn a_2b2(&self, _ctx: ExecCtx, first: u32, second: u32) -> StdResult<Response> { Ok(Response::new()) }
+        fn a__22(&self, _ctx: ExecCtx, first: u32, second: u32) -> StdResult<Response> { Ok(Response::new()) }
         #[sv::msg(query)]
-        fn a_2bc(&self, _ctx: QueryCtx, first: u32, second: u32) -> StdResult<Resp> { Ok(Resp {}) }
+        fn a__2b(&self, _ctx: QueryCtx, first: u32, second: u32) -> StdResult<Resp> { Ok(Resp {}) }
         #[sv::msg(query)]
-        fn a___(&self, _ctx: QueryCtx, first: u32, second: u32) -> StdResult<Resp> { Ok(Resp {}) }
-        #[sv::msg(query)]
-        fn a__b_(&self, _ctx: QueryCtx, first: u32, second: u32) -> StdResult<Resp> { Ok(Resp {}) }
-        #[sv::msg(query)]
-        fn a_b_2(&self, _ctx: QueryCtx, first: u32, second: u32) -> StdResult<Resp> { Ok(Resp {}) }
+        fn a____(&self, _ctx: QueryCtx, first: u32, second: u32) -> StdResult<Resp> { Ok(Resp {}) }
         #[sv::msg(sudo)]
-        fn a_bc(&self, _ctx: SudoCtx, first: u32, second: u32) -> StdResult<Response> { Ok(Response::new()) }
+        fn a_b_(&self, _ctx: SudoCtx, first: u32, second: u32) -> StdResult<Response> { Ok(Response::new()) }
         #[sv::msg(sudo)]
-        fn a_bcd(&self, _ctx: SudoCtx, first: u32, second: u32) -> StdResult<Response> { Ok(Response::new()) }
+        fn ab__2(&self, _ctx: SudoCtx, first: u32, second: u32) -> StdResult<Response> { Ok(Response::new()) }
         #[sv::msg(sudo)]
-        fn ab22(&self, _ctx: SudoCtx, first: u32, second: u32) -> StdResult<Response> { Ok(Response::new()) }
-        #[sv::msg(sudo)]
-        fn ab222(&self, _ctx: SudoCtx, first: u32, second: u32) -> StdResult<Response> { Ok(Response::new()) }
+        fn abc_(&self, _ctx: SudoCtx, first: u32, second: u32) -> StdResult<Response> { Ok(Response::new()) }
     }
 }
 
@@ -1509,29 +1464,19 @@ pub mod ti14 {
     pub trait Shapes14 {
         type Error: From<StdError>;
         #[sv::msg(exec)]
-        fn a_bc(&self, ctx: ExecCtx, first: u32, second: u32) -> Result<Response, Self::Error>;
+        fn a_b_(&self, ctx: ExecCtx, first: u32, second: u32) -> Result<Response, Self::Error>;
         #[sv::msg(exec)]
-        fn a_bcd(&self, ctx: ExecCtx, first: u32, second: u32) -> Result<Response, Self::Error>;
+        fn ab__2(&self, ctx: ExecCtx, first: u32, second: u32) -> Result<Response, Self::Error>;
         #[sv::msg(exec)]
-        fn ab22(&self, ctx: ExecCtx, first: u32, second: u32) -> Result<Response, Self::Error>;
-        #[sv::msg(exec)]
-        fn ab222(&self, ctx: ExecCtx, first: u32, second: u32) -> Result<Response, Self::Error>;
+        fn abc_(&self, ctx: ExecCtx, first: u32, second: u32) -> Result<Response, Self::Error>;
         #[sv::msg(query)]
-        fn a2___(&self, ctx: QueryCtx, first: u32, second: u32) -> Result<Resp, Self::Error>;
+        fn a_2(&self, ctx: QueryCtx, first: u32, second: u32) -> Result<Resp, Self::Error>;
         #[sv::msg(query)]
-        fn a2b_(&self, ctx: QueryCtx, first: u32, second: u32) -> Result<Resp, Self::Error>;
-        #[sv::msg(query)]
-        fn a_22(&self, ctx: QueryCtx, first: u32, second: u32) -> Result<Resp, Self::Error>;
-        #[sv::msg(query)]
-        fn a_2b2(&self, ctx: QueryCtx, first: u32, second: u32) -> Result<Resp, Self::Error>;
+        fn a__22(&self, ctx: QueryCtx, first: u32, second: u32) -> Result<Resp, Self::Error>;
         #[sv::msg(sudo)]
-        fn a_2bc(&self, ctx: SudoCtx, first: u32, second: u32) -> Result<Response, Self::Error>;
+        fn a__2b(&self, ctx: SudoCtx, first: u32, second: u32) -> Result<Response, Self::Error>;
         #[sv::msg(sudo)]
-        fn a___(&self, ctx: SudoCtx, first: u32, second: u32) -> Result<Response, Self::Error>;
-        #[sv::msg(sudo)]
-        fn a__b_(&self, ctx: SudoCtx, first: u32, second: u32) -> Result<Response, Self::Error>;
-        #[sv::msg(sudo)]
-        fn a_b_2(&self, ctx: SudoCtx, first: u32, second: u32) -> Result<Response, Self::Error>;
+        fn a____(&self, ctx: SudoCtx, first: u32, second: u32) -> Result<Response, Self::Error>;
     }
 }
 
@@ -1541,18 +1486,13 @@ pub mod tu14 {
 
     impl super::ti14::Shapes14 for Contract {
         type Error = StdError;
-        fn a_bc(&self, _ctx: ExecCtx, first: u32, second: u32) -> StdResult<Response> { Ok(Response::new()) }
-        fn a_bcd(&self, _ctx: ExecCtx, first: u32, second: u32) -> StdResult<Response> { Ok(Response::new()) }
-        fn ab22(&self, _ctx: ExecCtx, first: u32, second: u32) -> StdResult<Response> { Ok(Response::new()) }
-        fn ab222(&self, _ctx: ExecCtx, first: u32, second: u32) -> StdResult<Response> { Ok(Response::new()) }
-        fn a2___(&self, _ctx: QueryCtx, first: u32, second: u32) -> StdResult<Resp> { Ok(Resp {}) }
-        fn a2b_(&self, _ctx: QueryCtx, first: u32, second: u32) -> StdResult<Resp> { Ok(Resp {}) }
-        fn a_22(&self, _ctx: QueryCtx, first: u32, second: u32) -> StdResult<Resp> { Ok(Resp {}) }
-        fn a_2b2(&self, _ctx: QueryCtx, first: u32, second: u32) -> StdResult<Resp> { Ok(Resp {}) }
-        fn a_2bc(&self, _ctx: SudoCtx, first: u32, second: u32) -> StdResult<Response> { Ok(Response::new()) }
-        fn a___(&self, _ctx: SudoCtx, first: u32, second: u32) -> StdResult<Response> { Ok(Response::new()) }
-        fn a__b_(&self, _ctx: SudoCtx, first: u32, second: u32) -> StdResult<Response> { Ok(Response::new()) }
-        fn a_b_2(&self, _ctx: SudoCtx, first: u32, second: u32) -> StdResult<Response> { Ok(Response::new()) }
+        fn a_b_(&self, _ctx: ExecCtx, first: u32, second: u32) -> StdResult<Response> { Ok(Response::new()) }
+        fn ab__2(&self, _ctx: ExecCtx, first: u32, second: u32) -> StdResult<Response> { Ok(Response::new()) }
+        fn abc_(&self, _ctx: ExecCtx, first: u32, second: u32) -> StdResult<Response> { Ok(Response::new()) }
+        fn a_2(&self, _ctx: QueryCtx, first: u32, second: u32) -> StdResult<Resp> { Ok(Resp {}) }
+        fn a__22(&self, _ctx: QueryCtx, first: u32, second: u32) -> StdResult<Resp> { Ok(Resp {}) }
+        fn a__2b(&self, _ctx: SudoCtx, first: u32, second: u32) -> StdResult<Response> { Ok(Response::new()) }
+        fn a____(&self, _ctx: SudoCtx, first: u32, second: u32) -> StdResult<Response> { Ok(Response::new()) }
     }
 
     #[entry_points]
@@ -1580,29 +1520,11 @@ pub mod tc15 {
         #[sv::msg(instantiate)]
         fn instantiate(&self, _ctx: InstantiateCtx) -> StdResult<Response> { Ok(Response::new()) }
         #[sv::msg(exec)]
-        fn a2b__(&self, _ctx: ExecCtx, first: u32, second: u32) -> StdResult<Response> { Ok(Response::new()) }
-        #[sv::msg(exec)]
-        fn a_2(&self, _ctx: ExecCtx, first: u32, second: u32) -> StdResult<Response> { Ok(Response::new()) }
-        #[sv::msg(exec)]
-        fn a_22_(&self, _ctx: ExecCtx, first: u32, second: u32) -> StdResult<Response> { Ok(Response::new()) }
-        #[sv::msg(exec)]
-        fn a____(&self, _ctx: ExecCtx, first: u32, second: u32) -> StdResult<Response> { Ok(Response::new()) }
+        fn a_2_(&self, _ctx: ExecCtx, first: u32, second: u32) -> StdResult<Response> { Ok(Response::new()) }
         #[sv::msg(query)]
-        fn a_b(&self, _ctx: QueryCtx, first: u32, second: u32) -> StdResult<Resp> { Ok(Resp {}) }
-        #[sv::msg(query)]
-        fn a_bc_(&self, _ctx: QueryCtx, first: u32, second: u32) -> StdResult<Resp> { Ok(Resp {}) }
-        #[sv::msg(query)]
-        fn ab2(&self, _ctx: QueryCtx, first: u32, second: u32) -> StdResult<Resp> { Ok(Resp {}) }
-        #[sv::msg(query)]
-        fn ab22_(&self, _ctx: QueryCtx, first: u32, second: u32) -> StdResult<Resp> { Ok(Resp {}) }
+        fn a_b__(&self, _ctx: QueryCtx, first: u32, second: u32) -> StdResult<Resp> { Ok(Resp {}) }
         #[sv::msg(sudo)]
-        fn ab22c(&self, _ctx: SudoCtx, first: u32, second: u32) -> StdResult<Response> { Ok(Response::new()) }
-        #[sv::msg(sudo)]
-        fn ab2_c(&self, _ctx: SudoCtx, first: u32, second: u32) -> StdResult<Response> { Ok(Response::new()) }
-        #[sv::msg(sudo)]
-        fn ab2c2(&self, _ctx: SudoCtx, first: u32, second: u32) -> StdResult<Response> { Ok(Response::new()) }
-        #[sv::msg(sudo)]
-        fn ab2cd(&self, _ctx: SudoCtx, first: u32, second: u32) -> StdResult<Response> { Ok(Response::new()) }
+        fn abc__(&self, _ctx: SudoCtx, first: u32, second: u32) -> StdResult<Response> { Ok(Response::new()) }
     }
 }
 
@@ -1613,29 +1535,11 @@ pub mod ti15 {
     pub trait Shapes15 {
         type Error: From<StdError>;
         #[sv::msg(exec)]
-        fn ab22c(&self, ctx: ExecCtx, first: u32, second: u32) -> Result<Response, Self::Error>;
-        #[sv::msg(exec)]
-        fn ab2_c(&self, ctx: ExecCtx, first: u32, second: u32) -> Result<Response, Self::Error>;
-        #[sv::msg(exec)]
-        fn ab2c2(&self, ctx: ExecCtx, first: u32, second: u32) -> Result<Response, Self::Error>;
-        #[sv::msg(exec)]
-        fn ab2cd(&self, ctx: ExecCtx, first: u32, second: u32) -> Result<Response, Self::Error>;
+        fn abc__(&self, ctx: ExecCtx, first: u32, second: u32) -> Result<Response, Self::Error>;
         #[sv::msg(query)]
-        fn a2b__(&self, ctx: QueryCtx, first: u32, second: u32) -> Result<Resp, Self::Error>;
-        #[sv::msg(query)]
-        fn a_2(&self, ctx: QueryCtx, first: u32, second: u32) -> Result<Resp, Self::Error>;
-        #[sv::msg(query)]
-        fn a_22_(&self, ctx: QueryCtx, first: u32, second: u32) -> Result<Resp, Self::Error>;
-        #[sv::msg(query)]
-        fn a____(&self, ctx: QueryCtx, first: u32, second: u32) -> Result<Resp, Self::Error>;
+        fn a_2_(&self, ctx: QueryCtx, first: u32, second: u32) -> Result<Resp, Self::Error>;
         #[sv::msg(sudo)]
-        fn a_b(&self, ctx: SudoCtx, first: u32, second: u32) -> Result<Response, Self::Error>;
-        #[sv::msg(sudo)]
-        fn a_bc_(&self, ctx: SudoCtx, first: u32, second: u32) -> Result<Response, Self::Error>;
-        #[sv::msg(sudo)]
-        fn ab2(&self, ctx: SudoCtx, first: u32, second: u32) -> Result<Response, Self::Error>;
-        #[sv::msg(sudo)]
-        fn ab22_(&self, ctx: SudoCtx, first: u32, second: u32) -> Result<Response, Self::Error>;
+        fn a_b__(&self, ctx: SudoCtx, first: u32, second: u32) -> Result<Response, Self::Error>;
     }
 }
 
@@ -1645,18 +1549,9 @@ pub mod tu15 {
 
     impl super::ti15::Shapes15 for Contract {
         type Error = StdError;
-        fn ab22c(&self, _ctx: ExecCtx, first: u32, second: u32) -> StdResult<Response> { Ok(Response::new()) }
-        fn ab2_c(&self, _ctx: ExecCtx, first: u32, second: u32) -> StdResult<Response> { Ok(Response::new()) }
-        fn ab2c2(&self, _ctx: ExecCtx, first: u32, second: u32) -> StdResult<Response> { Ok(Response::new()) }
-        fn ab2cd(&self, _ctx: ExecCtx, first: u32, second: u32) -> StdResult<Response> { Ok(Response::new()) }
-        fn a2b__(&self, _ctx: QueryCtx, first: u32, second: u32) -> StdResult<Resp> { Ok(Resp {}) }
-        fn a_2(&self, _ctx: QueryCtx, first: u32, second: u32) -> StdResult<Resp> { Ok(Resp {}) }
-        fn a_22_(&self, _ctx: QueryCtx, first: u32, second: u32) -> StdResult<Resp> { Ok(Resp {}) }
-        fn a____(&self, _ctx: QueryCtx, first: u32, second: u32) -> StdResult<Resp> { Ok(Resp {}) }
-        fn a_b(&self, _ctx: SudoCtx, first: u32, second: u32) -> StdResult<Response> { Ok(Response::new()) }
-        fn a_bc_(&self, _ctx: SudoCtx, first: u32, second: u32) -> StdResult<Response> { Ok(Response::new()) }
-        fn ab2(&self, _ctx: SudoCtx, first: u32, second: u32) -> StdResult<Response> { Ok(Response::new()) }
-        fn ab22_(&self, _ctx: SudoCtx, first: u32, second: u32) -> StdResult<Response> { Ok(Response::new()) }
+        fn abc__(&self, _ctx: ExecCtx, first: u32, second: u32) -> StdResult<Response> { Ok(Response::new()) }
+        fn a_2_(&self, _ctx: QueryCtx, first: u32, second: u32) -> StdResult<Resp> { Ok(Resp {}) }
+        fn a_b__(&self, _ctx: SudoCtx, first: u32, second: u32) -> StdResult<Response> { Ok(Response::new()) }
     }
 
     #[entry_points]
@@ -1684,29 +1579,9 @@ pub mod tc16 {
         #[sv::msg(instantiate)]
         fn instantiate(&self, _ctx: InstantiateCtx) -> StdResult<Response> { Ok(Response::new()) }
         #[sv::msg(exec)]
-        fn a_2_(&self, _ctx: ExecCtx, first: u32, second: u32) -> StdResult<Response> { Ok(Response::new()) }
-        #[sv::msg(exec)]
-        fn a_2_2(&self, _ctx: ExecCtx, first: u32, second: u32) -> StdResult<Response> { Ok(Response::new()) }
-        #[sv::msg(exec)]
-        fn a_2_b(&self, _ctx: ExecCtx, first: u32, second: u32) -> StdResult<Response> { Ok(Response::new()) }
-        #[sv::msg(exec)]
-        fn a_b_(&self, _ctx: ExecCtx, first: u32, second: u32) -> StdResult<Response> { Ok(Response::new()) }
+        fn a_2__(&self, _ctx: ExecCtx, first: u32, second: u32) -> StdResult<Response> { Ok(Response::new()) }
         #[sv::msg(query)]
-        fn ab2_(&self, _ctx: QueryCtx, first: u32, second: u32) -> StdResult<Resp> { Ok(Resp {}) }
-        #[sv::msg(query)]
-        fn ab2_2(&self, _ctx: QueryCtx, first: u32, second: u32) -> StdResult<Resp> { Ok(Resp {}) }
-        #[sv::msg(query)]
-        fn ab2c(&self, _ctx: QueryCtx, first: u32, second: u32) -> StdResult<Resp> { Ok(Resp {}) }
-        #[sv::msg(query)]
-        fn ab__c(&self, _ctx: QueryCtx, first: u32, second: u32) -> StdResult<Resp> { Ok(Resp {}) }
-        #[sv::msg(sudo)]
-        fn ab_c2(&self, _ctx: SudoCtx, first: u32, second: u32) -> StdResult<Response> { Ok(Response::new()) }
-        #[sv::msg(sudo)]
-        fn ab_cd(&self, _ctx: SudoCtx, first: u32, second: u32) -> StdResult<Response> { Ok(Response::new()) }
-        #[sv::msg(sudo)]
-        fn abc22(&self, _ctx: SudoCtx, first: u32, second: u32) -> StdResult<Response> { Ok(Response::new()) }
-        #[sv::msg(sudo)]
-        fn abc2d(&self, _ctx: SudoCtx, first: u32, second: u32) -> StdResult<Response> { Ok(Response::new()) }
+        fn ab(&self, _ctx: QueryCtx, first: u32, second: u32) -> StdResult<Resp> { Ok(Resp {}) }
     }
 }
 
@@ -1716,30 +1591,10 @@ pub mod ti16 {
     #[sv::custom(msg = sylvia::cw_std::Empty, query = sylvia::cw_std::Empty)]
     pub trait Shapes16 {
         type Error: From<StdError>;
-        #[sv::msg(exec)]
-        fn ab_c2(&self, ctx: ExecCtx, first: u32, second: u32) -> Result<Response, Self::Error>;
-        #[sv::msg(exec)]
-        fn ab_cd(&self, ctx: ExecCtx, first: u32, second: u32) -> Result<Response, Self::Error>;
-        #[sv::msg(exec)]
-        fn abc22(&self, ctx: ExecCtx, first: u32, second: u32) -> Result<Response, Self::Error>;
-        #[sv::msg(exec)]
-        fn abc2d(&self, ctx: ExecCtx, first: u32, second: u32) -> Result<Response, Self::Error>;
         #[sv::msg(query)]
-        fn a_2_(&self, ctx: QueryCtx, first: u32, second: u32) -> Result<Resp, Self::Error>;
-        #[sv::msg(query)]
-        fn a_2_2(&self, ctx: QueryCtx, first: u32, second: u32) -> Result<Resp, Self::Error>;
-        #[sv::msg(query)]
-        fn a_2_b(&self, ctx: QueryCtx, first: u32, second: u32) -> Result<Resp, Self::Error>;
-        #[sv::msg(query)]
-        fn a_b_(&self, ctx: QueryCtx, first: u32, second: u32) -> Result<Resp, Self::Error>;
+        fn a_2__(&self, ctx: QueryCtx, first: u32, second: u32) -> Result<Resp, Self::Error>;
         #[sv::msg(sudo)]
-        fn ab2_(&self, ctx: SudoCtx, first: u32, second: u32) -> Result<Response, Self::Error>;
-        #[sv::msg(sudo)]
-        fn ab2_2(&self, ctx: SudoCtx, first: u32, second: u32) -> Result<Response, Self::Error>;
-        #[sv::msg(sudo)]
-        fn ab2c(&self, ctx: SudoCtx, first: u32, second: u32) -> Result<Response, Self::Error>;
-        #[sv::msg(sudo)]
-        fn ab__c(&self, ctx: SudoCtx, first: u32, second: u32) -> Result<Response, Self::Error>;
+        fn ab(&self, ctx: SudoCtx, first: u32, second: u32) -> Result<Response, Self::Error>;
     }
 }
 
@@ -1749,18 +1604,8 @@ pub mod tu16 {
 
     impl super::ti16::Shapes16 for Contract {
         type Error = StdError;
-        fn ab_c2(&self, _ctx: ExecCtx, first: u32, second: u32) -> StdResult<Response> { Ok(Response::new()) }
-        fn ab_cd(&self, _ctx: ExecCtx, first: u32, second: u32) -> StdResult<Response> { Ok(Response::new()) }
-        fn abc22(&self, _ctx: ExecCtx, first: u32, second: u32) -> StdResult<Response> { Ok(Response::new()) }
-        fn abc2d(&self, _ctx: ExecCtx, first: u32, second: u32) -> StdResult<Response> { Ok(Response::new()) }
-        fn a_2_(&self, _ctx: QueryCtx, first: u32, second: u32) -> StdResult<Resp> { Ok(Resp {}) }
-        fn a_2_2(&self, _ctx: QueryCtx, first: u32, second: u32) -> StdResult<Resp> { Ok(Resp {}) }
-        fn a_2_b(&self, _ctx: QueryCtx, first: u32, second: u32) -> StdResult<Resp> { Ok(Resp {}) }
-        fn a_b_(&self, _ctx: QueryCtx, first: u32, second: u32) -> StdResult<Resp> { Ok(Resp {}) }
-        fn ab2_(&self, _ctx: SudoCtx, first: u32, second: u32) -> StdResult<Response> { Ok(Response::new()) }
-        fn ab2_2(&self, _ctx: SudoCtx, first: u32, second: u32) -> StdResult<Response> { Ok(Response::new()) }
-        fn ab2c(&self, _ctx: SudoCtx, first: u32, second: u32) -> StdResult<Response> { Ok(Response::new()) }
-        fn ab__c(&self, _ctx: SudoCtx, first: u32, second: u32) -> StdResult<Response> { Ok(Response::new()) }
+        fn a_2__(&self, _ctx: QueryCtx, first: u32, second: u32) -> StdResult<Resp> { Ok(Resp {}) }
+        fn ab(&self, _ctx: SudoCtx, first: u32, second: u32) -> StdResult<Response> { Ok(Response::new()) }
     }
 
     #[entry_points]
@@ -1788,29 +1633,9 @@ pub mod tc17 {
         #[sv::msg(instantiate)]
         fn instantiate(&self, _ctx: InstantiateCtx) -> StdResult<Response> { Ok(Response::new()) }
         #[sv::msg(exec)]
-        fn a_2__(&self, _ctx: ExecCtx, first: u32, second: u32) -> StdResult<Response> { Ok(Response::new()) }
-        #[sv::msg(exec)]
-        fn a_2b(&self, _ctx: ExecCtx, first: u32, second: u32) -> StdResult<Response> { Ok(Response::new()) }
-        #[sv::msg(exec)]
-        fn a__22(&self, _ctx: ExecCtx, first: u32, second: u32) -> StdResult<Response> { Ok(Response::new()) }
-        #[sv::msg(exec)]
-        fn a_b__(&self, _ctx: ExecCtx, first: u32, second: u32) -> StdResult<Response> { Ok(Response::new()) }
+        fn a__2(&self, _ctx: ExecCtx, first: u32, second: u32) -> StdResult<Response> { Ok(Response::new()) }
         #[sv::msg(query)]
-        fn ab2__(&self, _ctx: QueryCtx, first: u32, second: u32) -> StdResult<Resp> { Ok(Resp {}) }
-        #[sv::msg(query)]
-        fn ab2c_(&self, _ctx: QueryCtx, first: u32, second: u32) -> StdResult<Resp> { Ok(Resp {}) }
-        #[sv::msg(query)]
-        fn ab_22(&self, _ctx: QueryCtx, first: u32, second: u32) -> StdResult<Resp> { Ok(Resp {}) }
-        #[sv::msg(query)]
-        fn ab_c(&self, _ctx: QueryCtx, first: u32, second: u32) -> StdResult<Resp> { Ok(Resp {}) }
-        #[sv::msg(sudo)]
-        fn abc2(&self, _ctx: SudoCtx, first: u32, second: u32) -> StdResult<Response> { Ok(Response::new()) }
-        #[sv::msg(sudo)]
-        fn abc_d(&self, _ctx: SudoCtx, first: u32, second: u32) -> StdResult<Response> { Ok(Response::new()) }
-        #[sv::msg(sudo)]
-        fn abcd2(&self, _ctx: SudoCtx, first: u32, second: u32) -> StdResult<Response> { Ok(Response::new()) }
-        #[sv::msg(sudo)]
-        fn abcde(&self, _ctx: SudoCtx, first: u32, second: u32) -> StdResult<Response> { Ok(Response::new()) }
+        fn ab_(&self, _ctx: QueryCtx, first: u32, second: u32) -> StdResult<Resp> { Ok(Resp {}) }
     }
 }
 
@@ -1820,30 +1645,10 @@ pub mod ti17 {
     #[sv::custom(msg = sylvia::cw_std::Empty, query = sylvia::cw_std::Empty)]
     pub trait Shapes17 {
         type Error: From<StdError>;
-        #[sv::msg(exec)]
-        fn abc2(&self, ctx: ExecCtx, first: u32, second: u32) -> Result<Response, Self::Error>;
-        #[sv::msg(exec)]
-        fn abc_d(&self, ctx: ExecCtx, first: u32, second: u32) -> Result<Response, Self::Error>;
-        #[sv::msg(exec)]
-        fn abcd2(&self, ctx: ExecCtx, first: u32, second: u32) -> Result<Response, Self::Error>;
-        #[sv::msg(exec)]
-        fn abcde(&self, ctx: ExecCtx, first: u32, second: u32) -> Result<Response, Self::Error>;
         #[sv::msg(query)]
-        fn a_2__(&self, ctx: QueryCtx, first: u32, second: u32) -> Result<Resp, Self::Error>;
-        #[sv::msg(query)]
-        fn a_2b(&self, ctx: QueryCtx, first: u32, second: u32) -> Result<Resp, Self::Error>;
-        #[sv::msg(query)]
-        fn a__22(&self, ctx: QueryCtx, first: u32, second: u32) -> Result<Resp, Self::Error>;
-        #[sv::msg(query)]
-        fn a_b__(&self, ctx: QueryCtx, first: u32, second: u32) -> Result<Resp, Self::Error>;
+        fn a__2(&self, ctx: QueryCtx, first: u32, second: u32) -> Result<Resp, Self::Error>;
         #[sv::msg(sudo)]
-        fn ab2__(&self, ctx: SudoCtx, first: u32, second: u32) -> Result<Response, Self::Error>;
-        #[sv::msg(sudo)]
-        fn ab2c_(&self, ctx: SudoCtx, first: u32, second: u32) -> Result<Response, Self::Error>;
-        #[sv::msg(sudo)]
-        fn ab_22(&self, ctx: SudoCtx, first: u32, second: u32) -> Result<Response, Self::Error>;
-        #[sv::msg(sudo)]
-        fn ab_c(&self, ctx: SudoCtx, first: u32, second: u32) -> Result<Response, Self::Error>;
+        fn ab_(&self, ctx: SudoCtx, first: u32, second: u32) -> Result<Response, Self::Error>;
     }
 }
 
@@ -1853,18 +1658,8 @@ pub mod tu17 {
 
     impl super::ti17::Shapes17 for Contract {
         type Error = StdError;
-        fn abc2(&self, _ctx: ExecCtx, first: u32, second: u32) -> StdResult<Response> { Ok(Response::new()) }
-        fn abc_d(&self, _ctx: ExecCtx, first: u32, second: u32) -> StdResult<Response> { Ok(Response::new()) }
-        fn abcd2(&self, _ctx: ExecCtx, first: u32, second: u32) -> StdResult<Response> { Ok(Response::new()) }
-        fn abcde(&self, _ctx: ExecCtx, first: u32, second: u32) -> StdResult<Response> { Ok(Response::new()) }
-        fn a_2__(&self, _ctx: QueryCtx, first: u32, second: u32) -> StdResult<Resp> { Ok(Resp {}) }
-        fn a_2b(&self, _ctx: QueryCtx, first: u32, second: u32) -> StdResult<Resp> { Ok(Resp {}) }
-        fn a__22(&self, _ctx: QueryCtx, first: u32, second: u32) -> StdResult<Resp> { Ok(Resp {}) }
-        fn a_b__(&self, _ctx: QueryCtx, first: u32, second: u32) -> StdResult<Resp> { Ok(Resp {}) }
-        fn ab2__(&self, _ctx: SudoCtx, first: u32, second: u32) -> StdResult<Response> { Ok(Response::new()) }
-        fn ab2c_(&self, _ctx: SudoCtx, first: u32, second: u32) -> StdResult<Response> { Ok(Response::new()) }
-        fn ab_22(&self, _ctx: SudoCtx, first: u32, second: u32) -> StdResult<Response> { Ok(Response::new()) }
-        fn ab_c(&self, _ctx: SudoCtx, first: u32, second: u32) -> StdResult<Response> { Ok(Response::new()) }
+        fn a__2(&self, _ctx: QueryCtx, first: u32, second: u32) -> StdResult<Resp> { Ok(Resp {}) }
+        fn ab_(&self, _ctx: SudoCtx, first: u32, second: u32) -> StdResult<Response> { Ok(Response::new()) }
     }
 
     #[entry_points]
@@ -1892,21 +1687,9 @@ pub mod tc18 {
         #[sv::msg(instantiate)]
         fn instantiate(&self, _ctx: InstantiateCtx) -> StdResult<Response> { Ok(Response::new()) }
         #[sv::msg(exec)]
-        fn a_2b_(&self, _ctx: ExecCtx, first: u32, second: u32) -> StdResult<Response> { Ok(Response::new()) }
-        #[sv::msg(exec)]
-        fn a__2(&self, _ctx: ExecCtx, first: u32, second: u32) -> StdResult<Response> { Ok(Response::new()) }
+        fn a__2_(&self, _ctx: ExecCtx, first: u32, second: u32) -> StdResult<Response> { Ok(Response::new()) }
         #[sv::msg(query)]
-        fn ab(&self, _ctx: QueryCtx, first: u32, second: u32) -> StdResult<Resp> { Ok(Resp {}) }
-        #[sv::msg(query)]
-        fn ab_2(&self, _ctx: QueryCtx, first: u32, second: u32) -> StdResult<Resp> { Ok(Resp {}) }
-        #[sv::msg(sudo)]
-        fn ab_2c(&self, _ctx: SudoCtx, first: u32, second: u32) -> StdResult<Response> { Ok(Response::new()) }
-        #[sv::msg(sudo)]
-        fn ab_c_(&self, _ctx: SudoCtx, first: u32, second: u32) -> StdResult<Response> { Ok(Response::new()) }
-        #[sv::msg(sudo)]
-        fn abc2_(&self, _ctx: SudoCtx, first: u32, second: u32) -> StdResult<Response> { Ok(Response::new()) }
-        #[sv::msg(sudo)]
-        fn abcd(&self, _ctx: SudoCtx, first: u32, second: u32) -> StdResult<Response> { Ok(Response::new()) }
+        fn ab__(&self, _ctx: QueryCtx, first: u32, second: u32) -> StdResult<Resp> { Ok(Resp {}) }
     }
 }
 
@@ -1916,22 +1699,10 @@ pub mod ti18 {
     #[sv::custom(msg = sylvia::cw_std::Empty, query = sylvia::cw_std::Empty)]
     pub trait Shapes18 {
         type Error: From<StdError>;
-        #[sv::msg(exec)]
-        fn ab_2c(&self, ctx: ExecCtx, first: u32, second: u32) -> Result<Response, Self::Error>;
-        #[sv::msg(exec)]
-        fn ab_c_(&self, ctx: ExecCtx, first: u32, second: u32) -> Result<Response, Self::Error>;
-        #[sv::msg(exec)]
-        fn abc2_(&self, ctx: ExecCtx, first: u32, second: u32) -> Result<Response, Self::Error>;
-        #[sv::msg(exec)]
-        fn abcd(&self, ctx: ExecCtx, first: u32, second: u32) -> Result<Response, Self::Error>;
         #[sv::msg(query)]
-        fn a_2b_(&self, ctx: QueryCtx, first: u32, second: u32) -> Result<Resp, Self::Error>;
-        #[sv::msg(query)]
-        fn a__2(&self, ctx: QueryCtx, first: u32, second: u32) -> Result<Resp, Self::Error>;
+        fn a__2_(&self, ctx: QueryCtx, first: u32, second: u32) -> Result<Resp, Self::Error>;
         #[sv::msg(sudo)]
-        fn ab(&self, ctx: SudoCtx, first: u32, second: u32) -> Result<Response, Self::Error>;
-        #[sv::msg(sudo)]
-        fn ab_2(&self, ctx: SudoCtx, first: u32, second: u32) -> Result<Response, Self::Error>;
+        fn ab__(&self, ctx: SudoCtx, first: u32, second: u32) -> Result<Response, Self::Error>;
     }
 }
 
@@ -1941,14 +1712,8 @@ pub mod tu18 {
 
     impl super::ti18::Shapes18 for Contract {
         type Error = StdError;
-        fn ab_2c(&self, _ctx: ExecCtx, first: u32, second: u32) -> StdResult<Response> { Ok(Response::new()) }
-        fn ab_c_(&self, _ctx: ExecCtx, first: u32, second: u32) -> StdResult<Response> { Ok(Response::new()) }
-        fn abc2_(&self, _ctx: ExecCtx, first: u32, second: u32) -> StdResult<Response> { Ok(Response::new()) }
-        fn abcd(&self, _ctx: ExecCtx, first: u32, second: u32) -> StdResult<Response> { Ok(Response::new()) }
-        fn a_2b_(&self, _ctx: QueryCtx, first: u32, second: u32) -> StdResult<Resp> { Ok(Resp {}) }
-        fn a__2(&self, _ctx: QueryCtx, first: u32, second: u32) -> StdResult<Resp> { Ok(Resp {}) }
-        fn ab(&self, _ctx: SudoCtx, first: u32, second: u32) -> StdResult<Response> { Ok(Response::new()) }
-        fn ab_2(&self, _ctx: SudoCtx, first: u32, second: u32) -> StdResult<Response> { Ok(Response::new()) }
+        fn a__2_(&self, _ctx: QueryCtx, first: u32, second: u32) -> StdResult<Resp> { Ok(Resp {}) }
+        fn ab__(&self, _ctx: SudoCtx, first: u32, second: u32) -> StdResult<Response> { Ok(Response::new()) }
     }
 
     #[entry_points]
@@ -1976,19 +1741,9 @@ pub mod tc19 {
         #[sv::msg(instantiate)]
         fn instantiate(&self, _ctx: InstantiateCtx) -> StdResult<Response> { Ok(Response::new()) }
         #[sv::msg(exec)]
-        fn a__2_(&self, _ctx: ExecCtx, first: u32, second: u32) -> StdResult<Response> { Ok(Response::new()) }
-        #[sv::msg(exec)]
-        fn a__2b(&self, _ctx: ExecCtx, first: u32, second: u32) -> StdResult<Response> { Ok(Response::new()) }
+        fn a___2(&self, _ctx: ExecCtx, first: u32, second: u32) -> StdResult<Response> { Ok(Response::new()) }
         #[sv::msg(query)]
-        fn ab_(&self, _ctx: QueryCtx, first: u32, second: u32) -> StdResult<Resp> { Ok(Resp {}) }
-        #[sv::msg(query)]
-        fn ab_2_(&self, _ctx: QueryCtx, first: u32, second: u32) -> StdResult<Resp> { Ok(Resp {}) }
-        #[sv::msg(sudo)]
-        fn abc(&self, _ctx: SudoCtx, first: u32, second: u32) -> StdResult<Response> { Ok(Response::new()) }
-        #[sv::msg(sudo)]
-        fn abc_2(&self, _ctx: SudoCtx, first: u32, second: u32) -> StdResult<Response> { Ok(Response::new()) }
-        #[sv::msg(sudo)]
-        fn abcd_(&self, _ctx: SudoCtx, first: u32, second: u32) -> StdResult<Response> { Ok(Response::new()) }
+        fn ab___(&self, _ctx: QueryCtx, first: u32, second: u32) -> StdResult<Resp> { Ok(Resp {}) }
     }
 }
 
@@ -1998,20 +1753,10 @@ pub mod ti19 {
     #[sv::custom(msg = sylvia::cw_std::Empty, query = sylvia::cw_std::Empty)]
     pub trait Shapes19 {
         type Error: From<StdError>;
-        #[sv::msg(exec)]
-        fn abc(&self, ctx: ExecCtx, first: u32, second: u32) -> Result<Response, Self::Error>;
-        #[sv::msg(exec)]
-        fn abc_2(&self, ctx: ExecCtx, first: u32, second: u32) -> Result<Response, Self::Error>;
-        #[sv::msg(exec)]
-        fn abcd_(&self, ctx: ExecCtx, first: u32, second: u32) -> Result<Response, Self::Error>;
         #[sv::msg(query)]
-        fn a__2_(&self, ctx: QueryCtx, first: u32, second: u32) -> Result<Resp, Self::Error>;
-        #[sv::msg(query)]
-        fn a__2b(&self, ctx: QueryCtx, first: u32, second: u32) -> Result<Resp, Self::Error>;
+        fn a___2(&self, ctx: QueryCtx, first: u32, second: u32) -> Result<Resp, Self::Error>;
         #[sv::msg(sudo)]
-        fn ab_(&self, ctx: SudoCtx, first: u32, second: u32) -> Result<Response, Self::Error>;
-        #[sv::msg(sudo)]
-        fn ab_2_(&self, ctx: SudoCtx, first: u32, second: u32) -> Result<Response, Self::Error>;
+        fn ab___(&self, ctx: SudoCtx, first: u32, second: u32) -> Result<Response, Self::Error>;
     }
 }
 
@@ -2021,136 +1766,13 @@ pub mod tu19 {
 
     impl super::ti19::Shapes19 for Contract {
         type Error = StdError;
-        fn abc(&self, _ctx: ExecCtx, first: u32, second: u32) -> StdResult<Response> { Ok(Response::new()) }
-        fn abc_2(&self, _ctx: ExecCtx, first: u32, second: u32) -> StdResult<Response> { Ok(Response::new()) }
-        fn abcd_(&self, _ctx: ExecCtx, first: u32, second: u32) -> StdResult<Response> { Ok(Response::new()) }
-        fn a__2_(&self, _ctx: QueryCtx, first: u32, second: u32) -> StdResult<Resp> { Ok(Resp {}) }
-        fn a__2b(&self, _ctx: QueryCtx, first: u32, second: u32) -> StdResult<Resp> { Ok(Resp {}) }
-        fn ab_(&self, _ctx: SudoCtx, first: u32, second: u32) -> StdResult<Response> { Ok(Response::new()) }
-        fn ab_2_(&self, _ctx: SudoCtx, first: u32, second: u32) -> StdResult<Response> { Ok(Response::new()) }
+        fn a___2(&self, _ctx: QueryCtx, first: u32, second: u32) -> StdResult<Resp> { Ok(Resp {}) }
+        fn ab___(&self, _ctx: SudoCtx, first: u32, second: u32) -> StdResult<Response> { Ok(Response::new()) }
     }
 
     #[entry_points]
     #[contract]
     #[sv::messages(super::ti19 as Shapes19)]
-    impl Contract {
-        pub fn new() -> Self { Self }
-        #[sv::msg(instantiate)]
-        fn instantiate(&self, _ctx: InstantiateCtx) -> StdResult<Response> { Ok(Response::new()) }
-        #[sv::msg(exec)]
-        fn zz_own_exec(&self, _ctx: ExecCtx, first: u32, second: u32) -> StdResult<Response> { Ok(Response::new()) }
-        #[sv::msg(query)]
-        fn zz_own_query(&self, _ctx: QueryCtx, first: u32, second: u32) -> StdResult<Resp> { Ok(Resp {}) }
-    }
-}
-
-pub mod tc20 {
-    use super::*;
-    pub struct Contract;
-
-    #[entry_points]
-    #[contract]
-    impl Contract {
-        pub fn new() -> Self { Self }
-        #[sv::msg(instantiate)]
-        fn instantiate(&self, _ctx: InstantiateCtx) -> StdResult<Response> { Ok(Response::new()) }
-        #[sv::msg(exec)]
-        fn a___2(&self, _ctx: ExecCtx, first: u32, second: u32) -> StdResult<Response> { Ok(Response::new()) }
-        #[sv::msg(query)]
-        fn ab__(&self, _ctx: QueryCtx, first: u32, second: u32) -> StdResult<Resp> { Ok(Resp {}) }
-        #[sv::msg(sudo)]
-        fn ab__2(&self, _ctx: SudoCtx, first: u32, second: u32) -> StdResult<Response> { Ok(Response::new()) }
-        #[sv::msg(sudo)]
-        fn abc_(&self, _ctx: SudoCtx, first: u32, second: u32) -> StdResult<Response> { Ok(Response::new()) }
-    }
-}
-
-pub mod ti20 {
-    use super::*;
-    #[interface]
-    #[sv::custom(msg = sylvia::cw_std::Empty, query = sylvia::cw_std::Empty)]
-    pub trait Shapes20 {
-        type Error: From<StdError>;
-        #[sv::msg(exec)]
-        fn ab__2(&self, ctx: ExecCtx, first: u32, second: u32) -> Result<Response, Self::Error>;
-        #[sv::msg(exec)]
-        fn abc_(&self, ctx: ExecCtx, first: u32, second: u32) -> Result<Response, Self::Error>;
-        #[sv::msg(query)]
-        fn a___2(&self, ctx: QueryCtx, first: u32, second: u32) -> Result<Resp, Self::Error>;
-        #[sv::msg(sudo)]
-        fn ab__(&self, ctx: SudoCtx, first: u32, second: u32) -> Result<Response, Self::Error>;
-    }
-}
-
-pub mod tu20 {
-    use super::*;
-    pub struct Contract;
-
-    impl super::ti20::Shapes20 for Contract {
-        type Error = StdError;
-        fn ab__2(&self, _ctx: ExecCtx, first: u32, second: u32) -> StdResult<Response> { Ok(Response::new()) }
-        fn abc_(&self, _ctx: ExecCtx, first: u32, second: u32) -> StdResult<Response> { Ok(Response::new()) }
-        fn a___2(&self, _ctx: QueryCtx, first: u32, second: u32) -> StdResult<Resp> { Ok(Resp {}) }
-        fn ab__(&self, _ctx: SudoCtx, first: u32, second: u32) -> StdResult<Response> { Ok(Response::new()) }
-    }
-
-    #[entry_points]
-    #[contract]
-    #[sv::messages(super::ti20 as Shapes20)]
-    impl Contract {
-        pub fn new() -> Self { Self }
-        #[sv::msg(instantiate)]
-        fn instantiate(&self, _ctx: InstantiateCtx) -> StdResult<Response> { Ok(Response::new()) }
-        #[sv::msg(exec)]
-        fn zz_own_exec(&self, _ctx: ExecCtx, first: u32, second: u32) -> StdResult<Response> { Ok(Response::new()) }
-        #[sv::msg(query)]
-        fn zz_own_query(&self, _ctx: QueryCtx, first: u32, second: u32) -> StdResult<Resp> { Ok(Resp {}) }
-    }
-}
-
-pub mod tc21 {
-    use super::*;
-    pub struct Contract;
-
-    #[entry_points]
-    #[contract]
-    impl Contract {
-        pub fn new() -> Self { Self }
-        #[sv::msg(instantiate)]
-        fn instantiate(&self, _ctx: InstantiateCtx) -> StdResult<Response> { Ok(Response::new()) }
-        #[sv::msg(exec)]
-        fn ab___(&self, _ctx: ExecCtx, first: u32, second: u32) -> StdResult<Response> { Ok(Response::new()) }
-        #[sv::msg(query)]
-        fn abc__(&self, _ctx: QueryCtx, first: u32, second: u32) -> StdResult<Resp> { Ok(Resp {}) }
-    }
-}
-
-pub mod ti21 {
-    use super::*;
-    #[interface]
-    #[sv::custom(msg = sylvia::cw_std::Empty, query = sylvia::cw_std::Empty)]
-    pub trait Shapes21 {
-        type Error: From<StdError>;
-        #[sv::msg(query)]
-        fn ab___(&self, ctx: QueryCtx, first: u32, second: u32) -> Result<Resp, Self::Error>;
-        #[sv::msg(sudo)]
-        fn abc__(&self, ctx: SudoCtx, first: u32, second: u32) -> Result<Response, Self::Error>;
-    }
-}
-
-pub mod tu21 {
-    use super::*;
-    pub struct Contract;
-
-    impl super::ti21::Shapes21 for Contract {
-        type Error = StdError;
-        fn ab___(&self, _ctx: QueryCtx, first: u32, second: u32) -> StdResult<Resp> { Ok(Resp {}) }
-        fn abc__(&self, _ctx: SudoCtx, first: u32, second: u32) -> StdResult<Response> { Ok(Response::new()) }
-    }
-
-    #[entry_points]
-    #[contract]
-    #[sv::messages(super::ti21 as Shapes21)]
     impl Contract {
         pub fn new() -> Self { Self }
         #[sv::msg(instantiate)]
